@@ -3,10 +3,10 @@
     logged (the completeness obligation over Generated.write_commands), and the replay
     theorem.  Statements are collected in Props/C11.v. *)
 From Ferrous Require Import Base.Bytes Generated Model.Resp Model.Types Model.Glob Model.Strings
-  Model.Lists Model.ZSets Model.Streams Model.Scan Model.Lua Model.Server Model.Conn Model.Aof
+  Model.Lists Model.ZSets Model.Streams Model.Scan Model.Lua Model.Server Model.Conn Model.Blocking Model.Aof
   Proofs.BytesFacts Proofs.RespFacts Proofs.StringsFacts Proofs.ListsFacts Proofs.ServerFacts
-  Proofs.ConnFacts Proofs.GroupFacts.
-From Coq Require Import ZifyBool.
+  Proofs.ConnFacts Proofs.StreamFacts Proofs.GroupFacts.
+From Coq Require Import ZifyBool Permutation.
 Open Scope Z_scope.
 
 (** ================= 1. the file is a sequence of whole frames ================= *)
@@ -86,9 +86,18 @@ Proof.
 Qed.
 
 (** ================= 2. the logging discipline ================= *)
-(** is the command appended: its upper-cased name is in the generated table *)
-Definition is_logged (parts : list frame) : bool :=
+(** the name is in the generated table (server.rs is_write_command) *)
+Definition is_write (parts : list frame) : bool :=
   match parts with FBulk nm :: _ => mem_name (upper nm) write_commands | _ => false end.
+(** appended as it was sent, before it runs: a write command that is not logged by outcome
+    (SPOP, XADD with the ID * ) and is not EVALSHA *)
+Definition is_logged (parts : list frame) : bool :=
+  match parts with FBulk nm :: _ => logs_before (upper nm) parts | _ => false end.
+Lemma is_logged_write parts : is_logged parts = true -> is_write parts = true.
+Proof.
+  unfold is_logged, is_write, logs_before, mem_name. destruct parts as [|[] rest]; try discriminate.
+  intros H. apply andb_prop in H as [H _]. apply andb_prop in H as [H _]. exact H.
+Qed.
 
 (** what append_command(parts, db) adds to the log (newest first): the command, preceded by a
     SELECT record when the database differs from that of the last command written *)
@@ -96,19 +105,81 @@ Definition aof_push (log : list (list frame)) (dbi : Z) (parts : list frame) : l
   parts :: (if same_db (aof_last_db log) dbi then log else aof_select dbi :: log).
 Lemma s_aof_log_aof_in s dbi parts : s_aof (log_aof_in s dbi parts) = aof_push (s_aof s) dbi parts.
 Proof. unfold log_aof_in, aof_push. destruct (same_db _ _); reflexivity. Qed.
+(** several records in a row, all under database [dbi] (oldest first) *)
+Definition push_recs (log : list (list frame)) (dbi : Z) (rs : list (list frame)) : list (list frame) :=
+  fold_left (fun l r => aof_push l dbi r) rs log.
+Lemma push_recs_app log dbi a b : push_recs log dbi (a ++ b) = push_recs (push_recs log dbi a) dbi b.
+Proof. unfold push_recs. apply fold_left_app. Qed.
 
-(** process_normal_command appends the command once, before dispatch, iff it is a write
-    command by name - whatever it answers *)
+Definition is_err (f : frame) : bool := match f with FError _ => true | _ => false end.
+(** the records a command leaves once it has run (oldest first), given its reply and the
+    database it left: the deterministic form of a random / clock-dependent command (f085462),
+    then the absolute deadline of the key a TTL command named (98d0d1a) *)
+Definition out_recs (now : Z) (d' : db) (name : bytes) (parts : list frame) (reply : frame) : list (list frame) :=
+  (if by_outcome name parts
+   then match deterministic_form name parts reply with Some p => [p] | None => [] end
+   else [])
+  ++ (if ttl_recorded name && negb (is_err reply)
+      then match nth_error parts 1 with
+           | Some (FBulk k) => match eng_ttl now d' k with
+                               | Some rem => [pexpireat_record k (now + rem)]
+                               | None => []
+                               end
+           | _ => []
+           end
+      else []).
+Lemma aof_after_recs now log dbi d' name parts reply :
+  aof_after now log dbi d' name parts reply = push_recs log dbi (out_recs now d' name parts reply).
+Proof.
+  unfold aof_after, out_recs, push_recs, aof_push, is_err.
+  destruct (by_outcome name parts); [destruct (deterministic_form name parts reply)|];
+  (destruct (ttl_recorded name && negb match reply with FError _ => true | _ => false end);
+   [destruct (nth_error parts 1) as [[]|]; try reflexivity; destruct (eng_ttl now d' b); reflexivity|reflexivity]).
+Qed.
+
+(** all the records of one command run on the databases [dbs] (after the lazy expiry), oldest
+    first: the command as it was sent, then the records of its outcome *)
+Definition verb_recs (parts : list frame) : list (list frame) :=
+  match parts with
+  | FBulk nm :: _ => if logs_before (upper nm) parts then [parts] else []
+  | _ => []
+  end.
+Definition dout_recs (now : Z) (dbs : list db) (dbi : Z) (parts : list frame) (o : option frame) : list (list frame) :=
+  match parts with
+  | FBulk nm :: _ =>
+      let name := upper nm in
+      if beq name (bs "PING") then []
+      else if beq name (bs "ECHO") then []
+      else if beq name (bs "SELECT") then []
+      else if beq name (bs "FLUSHALL") then []
+      else if beq name (bs "RANDOMKEY") then []
+      else if beq name (bs "AUTH") then []
+      else if beq name (bs "QUIT") then []
+      else if beq name (bs "VERIF") then []
+      else match exec_db now (nth (Z.to_nat dbi) dbs empty_db) name parts o with
+           | Some (r, d') => out_recs now d' name parts r
+           | None => []
+           end
+  | _ => []
+  end.
+Definition dcmd_recs (now : Z) (dbs : list db) (dbi : Z) (parts : list frame) (o : option frame) : list (list frame) :=
+  verb_recs parts ++ dout_recs now dbs dbi parts o.
+
+(** process_normal_command (after the lazy expiry): the command as it was sent, before it runs,
+    iff [logs_before]; then the records of its outcome - whatever it answers *)
 Lemma dc_aof now s c dbi parts o :
   s_aof (snd (dispatch_command now s c dbi parts o)) =
-  if is_logged parts then aof_push (s_aof s) dbi parts else s_aof s.
+  push_recs (s_aof s) dbi (dcmd_recs now (s_dbs s) dbi parts o).
 Proof.
-  unfold dispatch_command, is_logged.
+  unfold dispatch_command, dcmd_recs, verb_recs, dout_recs.
   destruct parts as [|first rest]; [reflexivity|]. destruct first; try reflexivity.
-  set (s0 := if mem_name (upper b) write_commands then log_aof_in s dbi (FBulk b :: rest) else s).
-  assert (H0 : s_aof s0 = if mem_name (upper b) write_commands then aof_push (s_aof s) dbi (FBulk b :: rest) else s_aof s).
-  { unfold s0. destruct (mem_name (upper b) write_commands); [apply s_aof_log_aof_in|reflexivity]. }
-  rewrite <- H0. clear H0. generalize s0. clear s0. intros s0.
+  rewrite push_recs_app.
+  set (s0 := if logs_before (upper b) (FBulk b :: rest) then log_aof_in s dbi (FBulk b :: rest) else s).
+  assert (H0 : s_aof s0 = push_recs (s_aof s) dbi (if logs_before (upper b) (FBulk b :: rest) then [FBulk b :: rest] else [])).
+  { unfold s0. destruct (logs_before (upper b) (FBulk b :: rest)); [apply s_aof_log_aof_in|reflexivity]. }
+  assert (H1 : s_dbs s0 = s_dbs s)
+    by (unfold s0; destruct (logs_before (upper b) (FBulk b :: rest)); [unfold log_aof_in; destruct (same_db _ _)|]; reflexivity).
+  rewrite <- H0, <- H1. clear H0 H1. generalize s0. clear s0. intros s0.
   destruct (beq (upper b) (bs "PING")); [reflexivity|].
   destruct (beq (upper b) (bs "ECHO")); [reflexivity|].
   destruct (beq (upper b) (bs "SELECT")).
@@ -124,16 +195,9 @@ Proof.
     destruct (auth_per_connection _ _ _ _ _ E) as (_ & _ & _ & Ha & _). exact Ha. }
   destruct (beq (upper b) (bs "QUIT")); [reflexivity|].
   destruct (beq (upper b) (bs "VERIF")); [reflexivity|].
-  destruct (exec_db now (get_db s0 dbi) (upper b) (FBulk b :: rest) o) as [[r0 d']|]; reflexivity.
-Qed.
-
-Lemma nc_aof now s c dbi parts o :
-  s_aof (snd (normal_command now s c dbi parts o)) =
-  if is_logged parts then aof_push (s_aof s) dbi parts else s_aof s.
-Proof.
-  unfold normal_command. destruct parts as [|[] rest]; try reflexivity.
-  rewrite dc_aof. destruct (lazy_expire_rest now s dbi (upper b) (FBulk b :: rest)) as (_ & _ & Ha & _).
-  rewrite Ha. reflexivity.
+  unfold get_db.
+  destruct (exec_db now (nth (Z.to_nat dbi) (s_dbs s0) empty_db) (upper b) (FBulk b :: rest) o) as [[r0 d']|]; [|reflexivity].
+  cbn [snd log_after s_aof]. rewrite aof_after_recs. reflexivity.
 Qed.
 
 (** ================= 3. commands that are not logged leave the database alone ================= *)
@@ -175,11 +239,24 @@ Proof.
   destruct (alookup_In' _ _ _ E) as (k' & Hin). rewrite forallb_forall in H.
   specialize (H _ Hin). cbn [snd] in H. apply negb_true_iff in H. exact H.
 Qed.
+(** the same as a statement about lookups: no key names an entry past its deadline *)
+Definition lfresh (now : Z) (d : db) : Prop := forall k, was_expired now d k = false.
+Lemma fresh_lfresh now d : fresh now d = true -> lfresh now d.
+Proof. intros H k. apply fresh_not_expired; exact H. Qed.
+Lemma lfresh_entry now d k e : lfresh now d -> get_entry d k = Some e -> expired now e = false.
+Proof. intros F E. specialize (F k). unfold was_expired in F. rewrite E in F. exact F. Qed.
+Lemma expired_mono t t' e : t <= t' -> expired t' e = false -> expired t e = false.
+Proof. unfold expired. destruct (e_exp e); [|reflexivity]. intros. lia. Qed.
+Lemma lfresh_mono t t' d : t <= t' -> lfresh t' d -> lfresh t d.
+Proof.
+  intros Ht F k. specialize (F k). unfold was_expired in *. destruct (get_entry d k); [|reflexivity].
+  eapply expired_mono; eauto.
+Qed.
 (** on a database without expired entries lazy expiry removes nothing *)
-Lemma lr_fresh now d d' : fresh now d = true -> lazy_removed now d d' -> d' = d.
+Lemma lr_fresh now d d' : lfresh now d -> lazy_removed now d d' -> d' = d.
 Proof.
   intros Hf H. destruct H as [|d k d' Hx _]; [reflexivity|].
-  rewrite (fresh_not_expired now d k Hf) in Hx. discriminate.
+  rewrite (Hf k) in Hx. discriminate.
 Qed.
 
 Lemma lr_eng_get now d k g d' : eng_get now d k = (g, d') -> lazy_removed now d d'.
@@ -442,11 +519,15 @@ Proof.
   { inversion H; subst. eapply exec_streams_inert; eauto. }
   destruct (exec_scan now d name parts o) as [[r5 d5]|] eqn:E5.
   { inversion H; subst. eapply exec_scan_inert; eauto. }
-  eapply exec_scripts_inert; eauto.
+  destruct (exec_scripts now d name parts o) as [[r6 d6]|] eqn:E6.
+  { inversion H; subst. eapply exec_scripts_inert; eauto. }
+  (* PEXPIREAT is in the table *)
+  unfold exec_aofcmds in H. destruct (beq name (bs "PEXPIREAT")) eqn:E; [|discriminate].
+  apply beq_eq in E. subst name. exfalso. vm_compute in Hw. discriminate Hw.
 Qed.
 Lemma exec_db_inert_fresh now d name parts o r d' :
   mem_name name write_commands = false ->
-  fresh now d = true -> exec_db now d name parts o = Some (r, d') -> d' = d.
+  lfresh now d -> exec_db now d name parts o = Some (r, d') -> d' = d.
 Proof. intros Hw Hf H. eapply lr_fresh; [exact Hf|]. eapply exec_db_inert; eauto. Qed.
 
 (** ================= 4. what a command does, as a function of the databases ================= *)
@@ -457,6 +538,11 @@ Proof.
   induction dbs as [|d dbs IH]; intros i H; [destruct i; reflexivity|].
   cbn [fresh_all] in H. apply andb_prop in H as [H1 H2]. destruct i; [exact H1|apply IH; exact H2].
 Qed.
+Definition lfresh_all (now : Z) (dbs : list db) : Prop := forall i, lfresh now (nth i dbs empty_db).
+Lemma fresh_lfresh_all now dbs : fresh_all now dbs = true -> lfresh_all now dbs.
+Proof. intros H i. apply fresh_lfresh. apply fresh_all_nth. exact H. Qed.
+Lemma lfresh_all_mono t t' dbs : t <= t' -> lfresh_all t' dbs -> lfresh_all t dbs.
+Proof. intros Ht F i. eapply lfresh_mono; eauto. Qed.
 Lemma list_set_nth_same {A} (l : list A) : forall i dflt, list_set l i (nth i l dflt) = l.
 Proof.
   induction l as [|x l IH]; intros i dflt; [destruct i; reflexivity|].
@@ -495,24 +581,24 @@ Definition step_dbs (now : Z) (dbs : list db) (dbi : Z) (parts : list frame) (o 
   | FBulk nm :: _ => dstep_dbs now (pre_dbs now dbs dbi (upper nm) parts) dbi parts o
   | _ => dbs
   end.
-Lemma purge_key_fresh now d l k : fresh now d = true -> purge_key now (d, l) k = (d, l).
+Lemma purge_key_fresh now d l k : lfresh now d -> purge_key now (d, l) k = (d, l).
 Proof.
   intros F. unfold purge_key. cbn [fst snd]. destruct (get_entry d k) as [e|] eqn:E; [|reflexivity].
-  pose proof (fresh_not_expired now d k F) as H. unfold was_expired in H. rewrite E in H. rewrite H. reflexivity.
+  rewrite (lfresh_entry now d k e F E). reflexivity.
 Qed.
-Lemma purge_fold_fresh_id now d : fresh now d = true -> forall ks l, fold_left (purge_key now) ks (d, l) = (d, l).
+Lemma purge_fold_fresh_id now d : lfresh now d -> forall ks l, fold_left (purge_key now) ks (d, l) = (d, l).
 Proof. intros F. induction ks as [|k ks IH]; intros l; [reflexivity|]. cbn [fold_left]. rewrite purge_key_fresh by exact F. apply IH. Qed.
-Lemma expire_before_id now d name parts : fresh now d = true -> expire_before now d name parts = (d, []).
+Lemma expire_before_id now d name parts : lfresh now d -> expire_before now d name parts = (d, []).
 Proof.
   intros F. unfold expire_before, purge_due.
   assert (E : (if lazy_expires_every_arg then fold_left (purge_key now) (lazy_args parts) (d, []) else (d, [])) = (d, []))
     by (destruct lazy_expires_every_arg; [apply purge_fold_fresh_id; exact F|reflexivity]).
   rewrite E. destruct (bmem name lazy_keyspace_commands); [|reflexivity]. cbn [fst]. apply purge_fold_fresh_id; exact F.
 Qed.
-Lemma pre_dbs_fresh now dbs dbi name parts : fresh_all now dbs = true -> pre_dbs now dbs dbi name parts = dbs.
+Lemma pre_dbs_fresh now dbs dbi name parts : lfresh_all now dbs -> pre_dbs now dbs dbi name parts = dbs.
 Proof.
   intros F. unfold pre_dbs. destruct lazy_expiry_before_dispatch; [|reflexivity].
-  rewrite (expire_before_id now _ name parts (fresh_all_nth now dbs _ F)). apply list_set_nth_same.
+  rewrite (expire_before_id now _ name parts (F _)). apply list_set_nth_same.
 Qed.
 Lemma lazy_expire_dbs now s dbi name parts :
   s_dbs (lazy_expire now s dbi name parts) = pre_dbs now (s_dbs s) dbi name parts.
@@ -526,9 +612,9 @@ Lemma dc_dbs now s c dbi parts o :
 Proof.
   unfold dispatch_command, dstep_dbs.
   destruct parts as [|first rest]; [reflexivity|]. destruct first; try reflexivity.
-  set (s0 := if mem_name (upper b) write_commands then log_aof_in s dbi (FBulk b :: rest) else s).
+  set (s0 := if logs_before (upper b) (FBulk b :: rest) then log_aof_in s dbi (FBulk b :: rest) else s).
   assert (H0 : s_dbs s0 = s_dbs s)
-    by (unfold s0; destruct (mem_name (upper b) write_commands); [unfold log_aof_in; destruct (same_db _ _)|]; reflexivity).
+    by (unfold s0; destruct (logs_before (upper b) (FBulk b :: rest)); [unfold log_aof_in; destruct (same_db _ _)|]; reflexivity).
   rewrite <- H0. clear H0. generalize s0. clear s0. intros s0.
   destruct (beq (upper b) (bs "PING")); [reflexivity|].
   destruct (beq (upper b) (bs "ECHO")); [reflexivity|].
@@ -556,25 +642,25 @@ Proof.
   rewrite dc_dbs, lazy_expire_dbs. reflexivity.
 Qed.
 
-(** ---- the domain of the replay theorems ---- *)
-(** names outside it: SPOP (random outcome) and EVALSHA (logged by hash; the script cache is not
-    part of the dataset) *)
-Definition replay_excluded : list bytes := [bs "SPOP"; bs "EVALSHA"].
-(** XADD with an auto-generated ID (time dependent) *)
-Definition auto_id (parts : list frame) : bool :=
-  match parts with _ :: _ :: FBulk i :: _ => beq i (bs "*") | _ => false end.
-Definition cmd_ok (parts : list frame) : bool :=
+(** the records of a command run in database [dbi]: mirrors process_normal_command *)
+Definition cmd_recs (now : Z) (dbs : list db) (dbi : Z) (parts : list frame) (o : option frame) : list (list frame) :=
   match parts with
-  | FBulk nm :: _ => negb (mem_name (upper nm) replay_excluded)
-                     && negb (beq (upper nm) (bs "XADD") && auto_id parts)
-  | _ => true
+  | FBulk nm :: _ => dcmd_recs now (pre_dbs now dbs dbi (upper nm) parts) dbi parts o
+  | _ => []
   end.
-
-(** a command that is not logged, run on databases without expired entries, changes nothing *)
-Lemma step_dbs_unlogged now dbs dbi parts o :
-  is_logged parts = false -> fresh_all now dbs = true -> step_dbs now dbs dbi parts o = dbs.
+Lemma nc_aof now s c dbi parts o :
+  s_aof (snd (normal_command now s c dbi parts o)) = push_recs (s_aof s) dbi (cmd_recs now (s_dbs s) dbi parts o).
 Proof.
-  unfold step_dbs, is_logged. intros Hl Hf.
+  unfold normal_command, cmd_recs. destruct parts as [|[] rest]; try reflexivity.
+  rewrite dc_aof, lazy_expire_dbs. destruct (lazy_expire_rest now s dbi (upper b) (FBulk b :: rest)) as (_ & _ & Ha & _).
+  rewrite Ha. reflexivity.
+Qed.
+
+(** a command that is not in the table, run on databases without expired entries, changes nothing *)
+Lemma step_dbs_unlogged now dbs dbi parts o :
+  is_write parts = false -> lfresh_all now dbs -> step_dbs now dbs dbi parts o = dbs.
+Proof.
+  unfold step_dbs, is_write. intros Hl Hf.
   destruct parts as [|first rest]; [reflexivity|]. destruct first; try reflexivity.
   rewrite (pre_dbs_fresh now dbs dbi _ _ Hf). unfold dstep_dbs.
   destruct (beq (upper b) (bs "PING")); [reflexivity|].
@@ -587,7 +673,7 @@ Proof.
   destruct (beq (upper b) (bs "QUIT")); [reflexivity|].
   destruct (beq (upper b) (bs "VERIF")); [reflexivity|].
   destruct (exec_db now (nth (Z.to_nat dbi) dbs empty_db) (upper b) (FBulk b :: rest) o) as [[r d']|] eqn:Ex; [|reflexivity].
-  rewrite (exec_db_inert_fresh _ _ _ _ _ _ _ Hl (fresh_all_nth now dbs _ Hf) Ex). apply list_set_nth_same.
+  rewrite (exec_db_inert_fresh _ _ _ _ _ _ _ Hl (Hf _) Ex). apply list_set_nth_same.
 Qed.
 
 (** ---- the connection: password-less servers, SELECT ---- *)
@@ -635,9 +721,9 @@ Proof.
             (forall c', c' <> c -> zlookup c' (s_conns s1) = zlookup c' (s_conns s))).
   { intros s1 Hs Hp1 Hc1. split; [exact Hp1|]. rewrite Hc1. split; [exists cn; auto|auto]. }
   destruct parts as [|first rest]; [apply Same; auto|]. destruct first; try (apply Same; auto; fail).
-  set (s0 := if mem_name (upper b) write_commands then log_aof_in s dbi (FBulk b :: rest) else s).
+  set (s0 := if logs_before (upper b) (FBulk b :: rest) then log_aof_in s dbi (FBulk b :: rest) else s).
   assert (H0 : s_conns s0 = s_conns s /\ s_password s0 = None)
-    by (unfold s0; destruct (mem_name (upper b) write_commands); [unfold log_aof_in; destruct (same_db _ _)|]; auto).
+    by (unfold s0; destruct (logs_before (upper b) (FBulk b :: rest)); [unfold log_aof_in; destruct (same_db _ _)|]; auto).
   destruct H0 as [Hc0' Hp0]. generalize dependent s0. intros s0 Hcs0 Hp0.
   destruct (beq (upper b) (bs "PING")) eqn:E1.
   { apply Same; auto. apply sel_db_other. apply beq_eq in E1. rewrite E1. reflexivity. }
@@ -687,9 +773,9 @@ Lemma dc_noconn now s c dbi parts o :
 Proof.
   intros Hpw Hc. unfold dispatch_command.
   destruct parts as [|first rest]; [auto|]. destruct first; auto.
-  set (s0 := if mem_name (upper b) write_commands then log_aof_in s dbi (FBulk b :: rest) else s).
+  set (s0 := if logs_before (upper b) (FBulk b :: rest) then log_aof_in s dbi (FBulk b :: rest) else s).
   assert (H0 : s_conns s0 = s_conns s /\ s_password s0 = None)
-    by (unfold s0; destruct (mem_name (upper b) write_commands); [unfold log_aof_in; destruct (same_db _ _)|]; auto).
+    by (unfold s0; destruct (logs_before (upper b) (FBulk b :: rest)); [unfold log_aof_in; destruct (same_db _ _)|]; auto).
   destruct H0 as [Hcs0 Hp0]. generalize dependent s0. intros s0 Hcs0 Hp0.
   destruct (beq (upper b) (bs "PING")); [auto|].
   destruct (beq (upper b) (bs "ECHO")); [auto|].
@@ -717,37 +803,89 @@ Proof.
     [rewrite Lp; exact Hpw|rewrite Lc; exact Hc|]. rewrite A, Lc. auto.
 Qed.
 
-(** ================= 5. histories as traces of commands ================= *)
-Definition dcmd := (Z * list frame)%type.      (* database, command *)
-Definition redo_cmds (now : Z) (cmds : list dcmd) (dbs : list db) : list db :=
-  fold_left (fun dbs x => step_dbs now dbs (fst x) (snd x) None) cmds dbs.
-Definition push_all (log : list (list frame)) (cmds : list dcmd) : list (list frame) :=
-  fold_left (fun l x => if is_logged (snd x) then aof_push l (fst x) (snd x) else l) cmds log.
+(** ================= 5. histories as traces of executed commands ================= *)
+(** one executed command: its database, the command, the oracle of its random choice (the reply
+    of the implementation for SPOP and XADD *, the f64 values of sorted-set arguments), and
+    whether the lazy expiry ran before it - true for everything a client sends, false for the
+    pop a waiting client is served, which does not pass through process_normal_command *)
+Record item := { x_db : Z; x_parts : list frame; x_or : option frame; x_lazy : bool }.
+Definition xstep_dbs (now : Z) (dbs : list db) (x : item) : list db :=
+  if x_lazy x then step_dbs now dbs (x_db x) (x_parts x) (x_or x)
+  else dstep_dbs now dbs (x_db x) (x_parts x) (x_or x).
+Definition xout_recs (now : Z) (dbs : list db) (x : item) : list (list frame) :=
+  match x_parts x with
+  | FBulk nm :: _ =>
+      dout_recs now (if x_lazy x then pre_dbs now dbs (x_db x) (upper nm) (x_parts x) else dbs) (x_db x) (x_parts x) (x_or x)
+  | _ => []
+  end.
+Definition xrecs (now : Z) (dbs : list db) (x : item) : list (list frame) :=
+  verb_recs (x_parts x) ++ xout_recs now dbs x.
+(** databases and log (newest record first) *)
+Definition state := (list db * list (list frame))%type.
+Definition st_of (s : server) : state := (s_dbs s, s_aof s).
+Definition xstep (now : Z) (st : state) (x : item) : state :=
+  (xstep_dbs now (fst st) x, push_recs (snd st) (x_db x) (xrecs now (fst st) x)).
+Definition run_items (now : Z) (xs : list item) (st : state) : state := fold_left (xstep now) xs st.
+
+Lemma xrecs_lazy now dbs dbi p o :
+  xrecs now dbs {| x_db := dbi; x_parts := p; x_or := o; x_lazy := true |} = cmd_recs now dbs dbi p o.
+Proof.
+  unfold xrecs, xout_recs, cmd_recs, dcmd_recs. cbn [x_parts x_db x_or x_lazy].
+  destruct p as [|[] rest]; try reflexivity; cbn [verb_recs]; rewrite ?app_nil_r; reflexivity.
+Qed.
+Lemma xrecs_direct now dbs dbi p o :
+  xrecs now dbs {| x_db := dbi; x_parts := p; x_or := o; x_lazy := false |} = dcmd_recs now dbs dbi p o.
+Proof.
+  unfold xrecs, xout_recs, dcmd_recs. cbn [x_parts x_db x_or x_lazy].
+  destruct p as [|[] rest]; try reflexivity; cbn [verb_recs dout_recs]; rewrite ?app_nil_r; reflexivity.
+Qed.
+(** a command sent by a client, as one step *)
+Lemma nc_state now s c dbi parts o :
+  st_of (snd (normal_command now s c dbi parts o)) =
+  xstep now (st_of s) {| x_db := dbi; x_parts := parts; x_or := o; x_lazy := true |}.
+Proof.
+  unfold st_of, xstep, xstep_dbs. cbn [fst snd x_db x_parts x_or x_lazy].
+  rewrite nc_dbs, nc_aof, xrecs_lazy. reflexivity.
+Qed.
+
 (** the queue of an EXEC with the database each command runs in: a queued SELECT (1ecc022) moves
-    the commands after it *)
-Fixpoint queue_dbs (dbi : Z) (q : list (list frame)) : list dcmd :=
+    the commands after it; a queued command has lost its oracle *)
+Fixpoint queue_items (dbi : Z) (q : list (list frame)) : list item :=
   match q with
   | [] => []
-  | p :: r => (dbi, p) :: queue_dbs (if beq (queued_name p) (bs "SELECT") then sel_db dbi p else dbi) r
+  | p :: r => {| x_db := dbi; x_parts := p; x_or := None; x_lazy := true |}
+              :: queue_items (if beq (queued_name p) (bs "SELECT") then sel_db dbi p else dbi) r
   end.
 
-Inductive ev := EConn (c : Z) | EClose (c : Z) | EFrame (c : Z) (req : frame).
-(** one event of the single command thread at clock reading [now]; no oracle: commands whose
-    model semantics needs one (SPOP, XADD *, and the f64 texts of sorted-set scores) answer an
-    error and change nothing *)
+(** the pop performed on behalf of a client waiting in BLPOP / BRPOP (Model/Blocking.v: the fast
+    path of h_bpop and the delivery branch of wake_client, 293eff6): the element leaves the list
+    and the LPOP / RPOP of the key is appended *)
+Definition pop_cmd (lf : bool) (k : bytes) : list frame :=
+  [FBulk (if lf then bs "LPOP" else bs "RPOP"); FBulk k].
+Definition served_pop (s : server) (dbi : Z) (lf : bool) (k : bytes) : server :=
+  match on_key (get_db s dbi) k (e_pop lf) with
+  | (FBulk v, d') => log_pop (set_db s dbi d') dbi lf k
+  | _ => s
+  end.
+
+Inductive ev :=
+| EConn (c : Z) | EClose (c : Z)
+| EFrame (c : Z) (req : frame) (o : option frame)
+| EServed (dbi : Z) (lf : bool) (k : bytes).
+(** one event of the single command thread at clock reading [now] *)
 Definition ev_step (now : Z) (s : server) (e : ev) : server :=
   match e with
   | EConn c => connect s c
   | EClose c => del_conn s c
-  | EFrame c req => let s' := snd (process_frame now s c req None) in
-                    if is_quit req then del_conn s' c else s'
+  | EFrame c req o => let s' := snd (process_frame now s c req o) in
+                      if is_quit req then del_conn s' c else s'
+  | EServed dbi lf k => served_pop s dbi lf k
   end.
-(** the commands one event runs through process_normal_command, in execution order, each with
-    the database it runs in (no password configured): a direct command, or the queue of an EXEC
-    that is not aborted *)
-Definition ev_cmds (now : Z) (s : server) (e : ev) : list dcmd :=
+(** the commands one event executes, in execution order (no password configured): a direct
+    command, the queue of an EXEC that is not aborted, the pop served to a waiting client *)
+Definition ev_items (now : Z) (s : server) (e : ev) : list item :=
   match e with
-  | EFrame c (FArray (FBulk nm :: rest)) =>
+  | EFrame c (FArray (FBulk nm :: rest)) o =>
       match zlookup c (s_conns s) with
       | None => []
       | Some cn =>
@@ -756,19 +894,24 @@ Definition ev_cmds (now : Z) (s : server) (e : ev) : list dcmd :=
           else if beq command (bs "MULTI") then []
           else if beq command (bs "EXEC") then
             (if c_intx cn then
-               if watch_violated now s cn then [] else queue_dbs (c_db cn) (c_queue cn)
+               if watch_violated now s cn then [] else queue_items (c_db cn) (c_queue cn)
              else [])
           else if beq command (bs "DISCARD") then []
           else if beq command (bs "WATCH") then []
           else if beq command (bs "UNWATCH") then []
           else if beq command (bs "AUTH") then []
-          else [(c_db cn, FBulk nm :: rest)]
+          else [{| x_db := c_db cn; x_parts := FBulk nm :: rest; x_or := o; x_lazy := true |}]
+      end
+  | EServed dbi lf k =>
+      match on_key (get_db s dbi) k (e_pop lf) with
+      | (FBulk _, _) => [{| x_db := dbi; x_parts := pop_cmd lf k; x_or := None; x_lazy := false |}]
+      | _ => []
       end
   | _ => []
   end.
 
 Definition conns_ok (s : server) : Prop :=
-  forall c cn, zlookup c (s_conns s) = Some cn -> db_ok (c_db cn) /\ forallb cmd_ok (c_queue cn) = true.
+  forall c cn, zlookup c (s_conns s) = Some cn -> db_ok (c_db cn).
 Record linv (s : server) : Prop := {
   linv_pw : s_password s = None;
   linv_conns : conns_ok s;
@@ -776,16 +919,16 @@ Record linv (s : server) : Prop := {
 }.
 Definition ev_ok (e : ev) : bool :=
   match e with
-  | EFrame _ (FArray parts) => cmd_ok parts
   | EConn c => negb (c =? 0)
+  | EServed dbi _ _ => (0 <=? dbi) && (dbi <? 16)
   | _ => true
   end.
-Definition dcmd_ok (x : dcmd) : bool := (0 <=? fst x) && (fst x <? 16) && cmd_ok (snd x).
+Definition item_ok (x : item) : bool := (0 <=? x_db x) && (x_db x <? 16).
 
-Lemma linv_set s c cn s' : linv s -> c <> 0 -> db_ok (c_db cn) -> forallb cmd_ok (c_queue cn) = true ->
+Lemma linv_set s c cn s' : linv s -> c <> 0 -> db_ok (c_db cn) ->
   s_password s' = s_password s -> s_conns s' = zset_ c cn (s_conns s) -> linv s'.
 Proof.
-  intros [H1 H2 H3] Hc Hd Hq Hp E. constructor; [rewrite Hp; exact H1| |].
+  intros [H1 H2 H3] Hc Hd Hp E. constructor; [rewrite Hp; exact H1| |].
   - intros c' cn' Hl. rewrite E in Hl. destruct (Z.eq_dec c' c) as [->|Hn].
     + rewrite zlookup_zset_same in Hl. inversion Hl; subst. auto.
     + rewrite zlookup_zset_other in Hl by exact Hn. exact (H2 c' cn' Hl).
@@ -803,61 +946,51 @@ Qed.
 Lemma linv_same s s' : linv s -> s_password s' = s_password s -> s_conns s' = s_conns s -> linv s'.
 Proof. intros [H1 H2 H3] Hp E. constructor; [rewrite Hp; exact H1|unfold conns_ok; rewrite E; exact H2|rewrite E; exact H3]. Qed.
 
-(** what one event does: a redo of its commands, and their records appended *)
-Record ev_spec (now : Z) (s s' : server) (cmds : list dcmd) : Prop := {
+(** what one event does: its commands run one after the other on databases and log *)
+Record ev_spec (now : Z) (s s' : server) (xs : list item) : Prop := {
   es_inv : linv s';
-  es_dbs : s_dbs s' = redo_cmds now cmds (s_dbs s);
-  es_log : s_aof s' = push_all (s_aof s) cmds
+  es_st : st_of s' = run_items now xs (st_of s)
 }.
 Lemma ev_spec_nil now s s' : linv s' -> s_dbs s' = s_dbs s -> s_aof s' = s_aof s -> ev_spec now s s' [].
-Proof. intros Hi Hd Ha. constructor; auto. Qed.
+Proof. intros Hi Hd Ha. constructor; [exact Hi|]. unfold st_of. rewrite Hd, Ha. reflexivity. Qed.
 
-Lemma queue_dbs_ok : forall q dbi, db_ok dbi -> forallb cmd_ok q = true -> forallb dcmd_ok (queue_dbs dbi q) = true.
+Lemma queue_items_ok : forall q dbi, db_ok dbi -> forallb item_ok (queue_items dbi q) = true.
 Proof.
-  induction q as [|p q IH]; intros dbi Hd Hq; [reflexivity|]. cbn [forallb] in Hq. apply andb_prop in Hq as [H1 H2].
-  cbn [queue_dbs forallb]. rewrite IH; [|destruct (beq _ _); [apply sel_db_ok|]; exact Hd|exact H2].
-  unfold dcmd_ok, db_ok in *. cbn [fst snd]. rewrite H1. lia.
+  induction q as [|p q IH]; intros dbi Hd; [reflexivity|].
+  cbn [queue_items forallb]. rewrite IH; [|destruct (beq _ _); [apply sel_db_ok|]; exact Hd].
+  unfold item_ok, db_ok in *. cbn [x_db]. lia.
 Qed.
 Lemma exec_queue_spec now c : forall q s dbi acc cn,
   linv s -> zlookup c (s_conns s) = Some cn -> c_db cn = dbi ->
-  ev_spec now s (snd (exec_queue now s c dbi q acc)) (queue_dbs dbi q).
+  ev_spec now s (snd (exec_queue now s c dbi q acc)) (queue_items dbi q).
 Proof.
-  induction q as [|parts q IH]; intros s dbi acc cn Hi Hc Hdb; cbn [exec_queue queue_dbs].
+  induction q as [|parts q IH]; intros s dbi acc cn Hi Hc Hdb; cbn [exec_queue queue_items].
   - apply ev_spec_nil; auto.
   - assert (Hc0 : c <> 0) by (intros ->; rewrite (linv_zero _ Hi) in Hc; discriminate).
     destruct (beq (queued_name parts) (bs "SELECT")).
     + (* a queued SELECT runs for the connection that sent EXEC *)
-      pose proof (nc_dbs now s c dbi parts None) as Hd. pose proof (nc_aof now s c dbi parts None) as Ha.
+      pose proof (nc_state now s c dbi parts None) as Hst.
       destruct (nc_conn now s c dbi parts None cn (linv_pw _ Hi) Hc) as (Hp & (cn' & Hc' & Hdb' & Hix & Hqx) & Hoth).
       destruct (normal_command now s c dbi parts None) as [rep s1]. cbn [snd] in *.
       rewrite Hc'.
       assert (Hi1 : linv s1).
       { constructor; [exact Hp| |].
         - intros c' cx Hl. destruct (Z.eq_dec c' c) as [->|Hn].
-          + rewrite Hc' in Hl. inversion Hl; subst cx. rewrite Hdb', Hqx.
-            destruct (linv_conns _ Hi c cn Hc) as [A B]. split; [apply sel_db_ok; exact A|exact B].
+          + rewrite Hc' in Hl. inversion Hl; subst cx. rewrite Hdb'.
+            apply sel_db_ok. exact (linv_conns _ Hi c cn Hc).
           + rewrite (Hoth c' Hn) in Hl. exact (linv_conns _ Hi c' cx Hl).
         - rewrite (Hoth 0 (fun X => Hc0 (eq_sym X))). exact (linv_zero _ Hi). }
       rewrite Hdb', Hdb.
-      destruct (IH s1 (sel_db dbi parts) (rep :: acc) cn' Hi1 Hc' (eq_trans Hdb' (f_equal (fun x => sel_db x parts) Hdb))) as [X1 X2 X3].
-      constructor; [exact X1| |].
-      * rewrite X2, Hd. reflexivity.
-      * rewrite X3, Ha. reflexivity.
-    + pose proof (nc_dbs now s 0 dbi parts None) as Hd. pose proof (nc_aof now s 0 dbi parts None) as Ha.
+      destruct (IH s1 (sel_db dbi parts) (rep :: acc) cn' Hi1 Hc' (eq_trans Hdb' (f_equal (fun x => sel_db x parts) Hdb))) as [X1 X2].
+      constructor; [exact X1|]. rewrite X2. unfold run_items. cbn [fold_left]. rewrite Hst. reflexivity.
+    + pose proof (nc_state now s 0 dbi parts None) as Hst.
       destruct (nc_noconn now s 0 dbi parts None (linv_pw _ Hi) (linv_zero _ Hi)) as [Hcs Hp].
       destruct (normal_command now s 0 dbi parts None) as [rep s1]. cbn [snd] in *.
       assert (Hi1 : linv s1) by (eapply linv_same; [exact Hi|rewrite Hp, (linv_pw _ Hi); reflexivity|exact Hcs]).
       assert (Hc1 : zlookup c (s_conns s1) = Some cn) by (rewrite Hcs; exact Hc).
-      destruct (IH s1 dbi (rep :: acc) cn Hi1 Hc1 Hdb) as [X1 X2 X3]. constructor; [exact X1| |].
-      * rewrite X2, Hd. reflexivity.
-      * rewrite X3, Ha. reflexivity.
+      destruct (IH s1 dbi (rep :: acc) cn Hi1 Hc1 Hdb) as [X1 X2]. constructor; [exact X1|].
+      rewrite X2. unfold run_items. cbn [fold_left]. rewrite Hst. reflexivity.
 Qed.
-(** EXEC appends the queued write commands in queue (= execution) order, each under the database
-    it ran in *)
-Lemma exec_queue_aof now c q s dbi acc cn :
-  linv s -> zlookup c (s_conns s) = Some cn -> c_db cn = dbi ->
-  s_aof (snd (exec_queue now s c dbi q acc)) = push_all (s_aof s) (queue_dbs dbi q).
-Proof. intros Hi Hc Hd. exact (es_log _ _ _ _ (exec_queue_spec now c q s dbi acc cn Hi Hc Hd)). Qed.
 Lemma unwatch_all_rest : forall w s,
   s_dbs (unwatch_all s w) = s_dbs s /\ s_conns (unwatch_all s w) = s_conns s /\
   s_password (unwatch_all s w) = s_password s /\ s_aof (unwatch_all s w) = s_aof s.
@@ -867,117 +1000,171 @@ Proof.
   rewrite A, B, C, D. auto.
 Qed.
 
+(** the served pop is the pop command run without the lazy expiry, and leaves its record *)
+Lemma pop_exec now d (lf : bool) k o :
+  exec_db now d (if lf then bs "LPOP" else bs "RPOP") (pop_cmd lf k) o = Some (on_key d k (e_pop lf)).
+Proof. destruct lf; reflexivity. Qed.
+Lemma pop_upper (lf : bool) : upper (if lf then bs "LPOP" else bs "RPOP") = (if lf then bs "LPOP" else bs "RPOP").
+Proof. destruct lf; reflexivity. Qed.
+Lemma pop_dstep now dbs dbi (lf : bool) k :
+  dstep_dbs now dbs dbi (pop_cmd lf k) None =
+  list_set dbs (Z.to_nat dbi) (snd (on_key (nth (Z.to_nat dbi) dbs empty_db) k (e_pop lf))).
+Proof.
+  unfold dstep_dbs, pop_cmd. rewrite pop_upper.
+  replace (beq (if lf then bs "LPOP" else bs "RPOP") (bs "PING")) with false by (destruct lf; reflexivity).
+  replace (beq (if lf then bs "LPOP" else bs "RPOP") (bs "ECHO")) with false by (destruct lf; reflexivity).
+  replace (beq (if lf then bs "LPOP" else bs "RPOP") (bs "SELECT")) with false by (destruct lf; reflexivity).
+  replace (beq (if lf then bs "LPOP" else bs "RPOP") (bs "FLUSHALL")) with false by (destruct lf; reflexivity).
+  replace (beq (if lf then bs "LPOP" else bs "RPOP") (bs "RANDOMKEY")) with false by (destruct lf; reflexivity).
+  replace (beq (if lf then bs "LPOP" else bs "RPOP") (bs "AUTH")) with false by (destruct lf; reflexivity).
+  replace (beq (if lf then bs "LPOP" else bs "RPOP") (bs "QUIT")) with false by (destruct lf; reflexivity).
+  replace (beq (if lf then bs "LPOP" else bs "RPOP") (bs "VERIF")) with false by (destruct lf; reflexivity).
+  fold (pop_cmd lf k). rewrite pop_exec. destruct (on_key _ k (e_pop lf)). reflexivity.
+Qed.
+Lemma pop_recs now dbs dbi (lf : bool) k : dcmd_recs now dbs dbi (pop_cmd lf k) None = [pop_cmd lf k].
+Proof.
+  unfold dcmd_recs, verb_recs, dout_recs, pop_cmd. rewrite pop_upper.
+  replace (logs_before (if lf then bs "LPOP" else bs "RPOP") [FBulk (if lf then bs "LPOP" else bs "RPOP"); FBulk k]) with true
+    by (destruct lf; reflexivity).
+  replace (beq (if lf then bs "LPOP" else bs "RPOP") (bs "PING")) with false by (destruct lf; reflexivity).
+  replace (beq (if lf then bs "LPOP" else bs "RPOP") (bs "ECHO")) with false by (destruct lf; reflexivity).
+  replace (beq (if lf then bs "LPOP" else bs "RPOP") (bs "SELECT")) with false by (destruct lf; reflexivity).
+  replace (beq (if lf then bs "LPOP" else bs "RPOP") (bs "FLUSHALL")) with false by (destruct lf; reflexivity).
+  replace (beq (if lf then bs "LPOP" else bs "RPOP") (bs "RANDOMKEY")) with false by (destruct lf; reflexivity).
+  replace (beq (if lf then bs "LPOP" else bs "RPOP") (bs "AUTH")) with false by (destruct lf; reflexivity).
+  replace (beq (if lf then bs "LPOP" else bs "RPOP") (bs "QUIT")) with false by (destruct lf; reflexivity).
+  replace (beq (if lf then bs "LPOP" else bs "RPOP") (bs "VERIF")) with false by (destruct lf; reflexivity).
+  fold (pop_cmd lf k). rewrite pop_exec. destruct (on_key _ k (e_pop lf)) as [r d'].
+  unfold out_recs.
+  replace (by_outcome (if lf then bs "LPOP" else bs "RPOP") (pop_cmd lf k)) with false by (destruct lf; reflexivity).
+  replace (ttl_recorded (if lf then bs "LPOP" else bs "RPOP")) with false by (destruct lf; reflexivity).
+  reflexivity.
+Qed.
+Lemma served_pop_spec now s dbi lf k :
+  linv s -> ev_spec now s (served_pop s dbi lf k) (ev_items now s (EServed dbi lf k)).
+Proof.
+  intros Hi. unfold served_pop. cbn [ev_items].
+  destruct (on_key (get_db s dbi) k (e_pop lf)) as [r d'] eqn:E.
+  assert (Hsame : ev_spec now s s []) by (apply ev_spec_nil; auto).
+  destruct r; try exact Hsame.
+  constructor.
+  - eapply linv_same; [exact Hi| |]; unfold log_pop, log_aof_in; destruct (same_db _ _); reflexivity.
+  - unfold run_items. cbn [fold_left]. unfold xstep, xstep_dbs, st_of. cbn [fst snd x_db x_parts x_or x_lazy].
+    rewrite xrecs_direct, pop_recs, pop_dstep. unfold get_db in E. rewrite E. cbn [snd].
+    unfold log_pop. rewrite s_aof_log_aof_in. f_equal.
+    unfold log_aof_in. destruct (same_db _ _); reflexivity.
+Qed.
+
 Lemma ev_step_spec now s e :
   linv s -> ev_ok e = true ->
-  ev_spec now s (ev_step now s e) (ev_cmds now s e) /\ forallb dcmd_ok (ev_cmds now s e) = true.
+  ev_spec now s (ev_step now s e) (ev_items now s e) /\ forallb item_ok (ev_items now s e) = true.
 Proof.
-  intros Hi Hok. destruct e as [c|c|c req]; cbn [ev_step ev_cmds].
+  intros Hi Hok. destruct e as [c|c|c req o|dbi lf k]; cbn [ev_step].
   - split; [|reflexivity]. apply ev_spec_nil; try reflexivity.
     cbn [ev_ok] in Hok. apply negb_true_iff in Hok.
-    eapply (linv_set s c); [exact Hi|lia| | |reflexivity|reflexivity]; [cbn; unfold db_ok; lia|reflexivity].
+    eapply (linv_set s c); [exact Hi|lia| |reflexivity|reflexivity]. cbn; unfold db_ok; lia.
   - split; [|reflexivity]. apply ev_spec_nil; try reflexivity.
     eapply linv_del; [exact Hi|reflexivity|reflexivity].
-  - assert (Hq : forall s1 cmds, ev_spec now s s1 cmds ->
-                   ev_spec now s (if is_quit req then del_conn s1 c else s1) cmds).
-    { intros s1 cmds X. destruct (is_quit req); [|exact X]. destruct X as [X1 X2 X3].
-      constructor; [|exact X2|exact X3]. eapply linv_del; [exact X1|reflexivity|reflexivity]. }
+  - cbn [ev_items].
+    assert (Hq : forall s1 xs, ev_spec now s s1 xs ->
+                   ev_spec now s (if is_quit req then del_conn s1 c else s1) xs).
+    { intros s1 xs X. destruct (is_quit req); [|exact X]. destruct X as [X1 X2].
+      constructor; [|exact X2]. eapply linv_del; [exact X1|reflexivity|reflexivity]. }
     assert (Hsame : ev_spec now s s []) by (apply ev_spec_nil; auto).
     unfold process_frame.
     destruct req as [| | | | |l| | | | | | |]; try (split; [apply Hq; exact Hsame|reflexivity]).
     destruct l as [|first rest]; [split; [apply Hq; exact Hsame|reflexivity]|].
     destruct first as [| | |nm| | | | | | | | |]; try (split; [apply Hq; exact Hsame|reflexivity]).
     destruct (zlookup c (s_conns s)) as [cn|] eqn:Hc; [|split; [apply Hq; exact Hsame|reflexivity]].
-    destruct (linv_conns _ Hi c cn Hc) as [Hdb Hqu].
+    pose proof (linv_conns _ Hi c cn Hc) as Hdb.
     assert (Hc0 : c <> 0) by (intros ->; rewrite (linv_zero _ Hi) in Hc; discriminate).
     rewrite (linv_pw _ Hi). cbn [andb].
-    set (parts := FBulk nm :: rest) in *. cbn [ev_ok] in Hok.
-    assert (Hconn : forall cn' s', db_ok (c_db cn') -> forallb cmd_ok (c_queue cn') = true ->
+    set (parts := FBulk nm :: rest) in *.
+    assert (Hconn : forall cn' s', db_ok (c_db cn') ->
               s_dbs s' = s_dbs s -> s_password s' = s_password s -> s_aof s' = s_aof s ->
               s_conns s' = zset_ c cn' (s_conns s) ->
               ev_spec now s (if is_quit (FArray parts) then del_conn s' c else s') []).
-    { intros cn' s' Hd' Hq' Hd Hp Ha Hcs. apply Hq. apply ev_spec_nil; auto. eapply (linv_set s c cn'); eauto. }
+    { intros cn' s' Hd' Hd Hp Ha Hcs. apply Hq. apply ev_spec_nil; auto. eapply (linv_set s c cn'); eauto. }
     destruct (c_intx cn && negb (mem_name (upper (trim nm)) tx_not_queued)).
-    { split; [|reflexivity]. cbn [snd]. eapply Hconn; try reflexivity; [exact Hdb|].
-      cbn [with_tx c_queue]. rewrite forallb_app, Hqu. cbn [forallb]. rewrite Hok. reflexivity. }
+    { split; [|reflexivity]. cbn [snd]. eapply Hconn; try reflexivity. exact Hdb. }
     destruct (beq (upper (trim nm)) (bs "MULTI")).
     { split; [|reflexivity]. destruct (c_intx cn); [apply Hq; exact Hsame|]. cbn [snd].
-      eapply Hconn; try reflexivity; [exact Hdb|reflexivity]. }
+      eapply Hconn; try reflexivity. exact Hdb. }
     destruct (beq (upper (trim nm)) (bs "EXEC")).
     { unfold h_exec. destruct (c_intx cn); [|split; [apply Hq; exact Hsame|reflexivity]]. cbn [negb].
       assert (Hi1 : linv (set_conn s c (clear_tx cn))).
-      { eapply (linv_set s c (clear_tx cn)); [exact Hi|exact Hc0|exact Hdb|reflexivity|reflexivity|reflexivity]. }
+      { eapply (linv_set s c (clear_tx cn)); [exact Hi|exact Hc0|exact Hdb|reflexivity|reflexivity]. }
       destruct (watch_violated now s cn).
-      { split; [|reflexivity]. cbn [snd]. eapply Hconn; try reflexivity; [exact Hdb|reflexivity]. }
-      split; [|apply queue_dbs_ok; assumption].
+      { split; [|reflexivity]. cbn [snd]. eapply Hconn; try reflexivity. exact Hdb. }
+      split; [|apply queue_items_ok; assumption].
       pose proof (exec_queue_spec now c (c_queue cn) (set_conn s c (clear_tx cn)) (c_db cn) [] (clear_tx cn) Hi1
                     (zlookup_zset_same _ _ _) eq_refl) as X.
       destruct (exec_queue now (set_conn s c (clear_tx cn)) c (c_db cn) (c_queue cn) []) as [reps s2]. cbn [snd] in *.
-      apply Hq. destruct X as [X1 X2 X3]. constructor; [exact X1|exact X2|exact X3]. }
+      apply Hq. destruct X as [X1 X2]. constructor; [exact X1|exact X2]. }
     destruct (beq (upper (trim nm)) (bs "DISCARD")).
     { split; [|reflexivity]. destruct (c_intx cn); [|apply Hq; exact Hsame]. cbn [negb snd].
-      eapply Hconn; try reflexivity; [exact Hdb|reflexivity]. }
+      eapply Hconn; try reflexivity. exact Hdb. }
     destruct (beq (upper (trim nm)) (bs "WATCH")).
     { split; [|reflexivity]. destruct (len parts <? 2); [apply Hq; exact Hsame|].
       destruct (c_intx cn); [apply Hq; exact Hsame|].
       destruct (watch_loop_partial (c_db cn) (get_trk s (c_db cn)) rest (c_watched cn)) as [[t' w'] okb].
-      cbn [snd]. eapply Hconn; try reflexivity; [exact Hdb|exact Hqu]. }
+      cbn [snd]. eapply Hconn; try reflexivity. exact Hdb. }
     destruct (beq (upper (trim nm)) (bs "UNWATCH")).
     { split; [|reflexivity]. cbn [snd]. destruct (unwatch_all_rest (c_watched cn) s) as (U1 & U2 & U3 & U4).
-      eapply (Hconn (with_tx cn (c_intx cn) (c_queue cn) [])); [exact Hdb|exact Hqu| | | |];
+      eapply (Hconn (with_tx cn (c_intx cn) (c_queue cn) [])); [exact Hdb| | | |];
         cbn [set_conn s_dbs s_password s_aof s_conns]; try assumption.
       rewrite U2. reflexivity. }
     destruct (beq (upper (trim nm)) (bs "AUTH")).
     { split; [|reflexivity]. rewrite (h_auth_nopw s c parts (linv_pw _ Hi)). apply Hq. exact Hsame. }
     (* a command executed directly *)
-    split; [|cbn [forallb]; unfold dcmd_ok, db_ok in *; cbn [fst snd]; rewrite Hok; lia].
+    split; [|cbn [forallb]; unfold item_ok, db_ok in *; cbn [x_db]; lia].
     apply Hq.
-    pose proof (nc_dbs now s c (c_db cn) parts None) as Hd. pose proof (nc_aof now s c (c_db cn) parts None) as Ha.
-    destruct (nc_conn now s c (c_db cn) parts None cn (linv_pw _ Hi) Hc) as (Hp & (cn' & Hc' & Hdb' & Hix & Hqx) & Hoth).
-    destruct (normal_command now s c (c_db cn) parts None) as [rep s1]. cbn [snd] in *.
-    constructor; [|rewrite Hd; reflexivity|rewrite Ha; reflexivity].
+    pose proof (nc_state now s c (c_db cn) parts o) as Hst.
+    destruct (nc_conn now s c (c_db cn) parts o cn (linv_pw _ Hi) Hc) as (Hp & (cn' & Hc' & Hdb' & Hix & Hqx) & Hoth).
+    destruct (normal_command now s c (c_db cn) parts o) as [rep s1]. cbn [snd] in *.
+    constructor; [|exact Hst].
     constructor; [exact Hp| |].
     + intros c' cx Hl. destruct (Z.eq_dec c' c) as [->|Hn].
-      * rewrite Hc' in Hl. inversion Hl; subst cx. rewrite Hdb', Hqx. split; [apply sel_db_ok; exact Hdb|exact Hqu].
+      * rewrite Hc' in Hl. inversion Hl; subst cx. rewrite Hdb'. apply sel_db_ok; exact Hdb.
       * rewrite (Hoth c' Hn) in Hl. exact (linv_conns _ Hi c' cx Hl).
     + rewrite (Hoth 0 (fun X => Hc0 (eq_sym X))). exact (linv_zero _ Hi).
+  - split; [apply served_pop_spec; exact Hi|]. cbn [ev_items].
+    destruct (on_key (get_db s dbi) k (e_pop lf)) as [[] d']; try reflexivity.
+    cbn [forallb]. unfold item_ok. cbn [x_db]. cbn [ev_ok] in Hok. rewrite Hok. reflexivity.
 Qed.
 
 (** ---- histories with a clock reading per event ---- *)
 Definition tev := (Z * ev)%type.
-Definition tcmd := (Z * dcmd)%type.
+Definition titem := (Z * item)%type.
 Definition tev_step (s : server) (te : tev) : server := ev_step (fst te) s (snd te).
 Definition run_tevs (h : list tev) : server := fold_left tev_step h (init_server None).
-Fixpoint trace_from (s : server) (h : list tev) : list tcmd :=
+Fixpoint trace_from (s : server) (h : list tev) : list titem :=
   match h with
   | [] => []
-  | te :: r => map (fun x => (fst te, x)) (ev_cmds (fst te) s (snd te)) ++ trace_from (tev_step s te) r
+  | te :: r => map (fun x => (fst te, x)) (ev_items (fst te) s (snd te)) ++ trace_from (tev_step s te) r
   end.
-(** the executed commands of a history, each with its event's clock reading and its database *)
-Definition trace_of (h : list tev) : list tcmd := trace_from (init_server None) h.
-Definition run_trace (tr : list tcmd) (dbs : list db) : list db :=
-  fold_left (fun dbs x => step_dbs (fst x) dbs (fst (snd x)) (snd (snd x)) None) tr dbs.
+(** the executed commands of a history, each with its event's clock reading *)
+Definition trace_of (h : list tev) : list titem := trace_from (init_server None) h.
+Definition run_trace (tr : list titem) (st : state) : state :=
+  fold_left (fun st tx => xstep (fst tx) st (snd tx)) tr st.
 
-Lemma run_trace_app a b d : run_trace (a ++ b) d = run_trace b (run_trace a d).
+Lemma run_trace_app a b st : run_trace (a ++ b) st = run_trace b (run_trace a st).
 Proof. unfold run_trace. apply fold_left_app. Qed.
-Lemma run_trace_same_time t cmds d : run_trace (map (fun x => (t, x)) cmds) d = redo_cmds t cmds d.
-Proof. revert d. induction cmds as [|p cmds IH]; intros d; [reflexivity|]. cbn [map]. unfold run_trace, redo_cmds in *. cbn [fold_left fst snd]. apply IH. Qed.
-Lemma push_all_app log a b : push_all log (a ++ b) = push_all (push_all log a) b.
-Proof. unfold push_all. apply fold_left_app. Qed.
+Lemma run_trace_same_time t xs st : run_trace (map (fun x => (t, x)) xs) st = run_items t xs st.
+Proof. revert st. induction xs as [|p xs IH]; intros st; [reflexivity|]. cbn [map]. unfold run_trace, run_items in *. cbn [fold_left fst snd]. apply IH. Qed.
 
 Lemma history_is_trace : forall h s,
   linv s -> forallb (fun te => ev_ok (snd te)) h = true ->
-  s_dbs (fold_left tev_step h s) = run_trace (trace_from s h) (s_dbs s) /\
-  s_aof (fold_left tev_step h s) = push_all (s_aof s) (map snd (trace_from s h)) /\
-  forallb (fun x => dcmd_ok (snd x)) (trace_from s h) = true.
+  st_of (fold_left tev_step h s) = run_trace (trace_from s h) (st_of s) /\
+  forallb (fun x => item_ok (snd x)) (trace_from s h) = true.
 Proof.
   induction h as [|[t e] h IH]; intros s Hi Hok; cbn [fold_left trace_from].
   - auto.
   - cbn [forallb snd] in Hok. apply andb_prop in Hok as [Hok1 Hok2].
-    destruct (ev_step_spec t s e Hi Hok1) as [[E1 E2 E3] E4].
+    destruct (ev_step_spec t s e Hi Hok1) as [[E1 E2] E4].
     change (tev_step s (t, e)) with (ev_step t s e). cbn [fst snd].
-    destruct (IH (ev_step t s e) E1 Hok2) as (I1 & I2 & I3). repeat split.
+    destruct (IH (ev_step t s e) E1 Hok2) as (I1 & I3). split.
     + rewrite I1, run_trace_app, run_trace_same_time, E2. reflexivity.
-    + rewrite I2, E3, map_app, push_all_app, map_map. cbn [snd]. rewrite map_id. reflexivity.
     + rewrite forallb_app, I3, andb_true_r. rewrite forallb_forall in *. intros [t' p] Hin.
       apply in_map_iff in Hin as (p' & Hp & Hin). inversion Hp; subst. cbn [snd]. exact (E4 _ Hin).
 Qed.
@@ -985,15 +1172,28 @@ Lemma linv_init : linv (init_server None).
 Proof. constructor; try reflexivity. intros c cn Hl. cbn in Hl. discriminate. Qed.
 
 (** ---- the records of the file, oldest first ---- *)
-(** [last] = the database the engine remembers *)
-Fixpoint recs (last : option Z) (cmds : list dcmd) : list (list frame) :=
-  match cmds with
+(** a record with the oracle the model's redo needs for it (the oracle of the command that was
+    logged as it was sent; none for the records the engine composed itself) *)
+Definition orec := (list frame * option frame)%type.
+Definition xorecs (now : Z) (dbs : list db) (x : item) : list orec :=
+  map (fun r => (r, x_or x)) (verb_recs (x_parts x)) ++ map (fun r => (r, None)) (xout_recs now dbs x).
+Lemma xorecs_fst now dbs x : map fst (xorecs now dbs x) = xrecs now dbs x.
+Proof. unfold xorecs, xrecs. rewrite map_app, !map_map. cbn [fst]. rewrite !map_id. reflexivity. Qed.
+(** the SELECT record in front of a group of records written under [dbi]; [last] = the database
+    the engine remembers *)
+Definition sel_recs {A} (last : option Z) (dbi : Z) (rs : list A) : list (list frame) :=
+  match rs with [] => [] | _ => if same_db last dbi then [] else [aof_select dbi] end.
+Definition next_last {A} (last : option Z) (dbi : Z) (rs : list A) : option Z :=
+  match rs with [] => last | _ => Some dbi end.
+Fixpoint trecs (tr : list titem) (dbs : list db) (last : option Z) : list orec :=
+  match tr with
   | [] => []
-  | (dbi, p) :: r =>
-      if is_logged p
-      then (if same_db last dbi then [p] else [aof_select dbi; p]) ++ recs (Some dbi) r
-      else recs last r
+  | (t, x) :: r =>
+      let rs := xorecs t dbs x in
+      map (fun p => (p, None)) (sel_recs last (x_db x) rs) ++ rs
+        ++ trecs r (xstep_dbs t dbs x) (next_last last (x_db x) rs)
   end.
+
 Lemma small_db_text n : db_ok n -> parse_usize (print_int n) = Some n.
 Proof.
   unfold db_ok. intros H.
@@ -1001,309 +1201,730 @@ Proof.
               n = 10 \/ n = 11 \/ n = 12 \/ n = 13 \/ n = 14 \/ n = 15) by lia.
   repeat (destruct C as [-> | C]; [vm_compute; reflexivity|]). subst. vm_compute. reflexivity.
 Qed.
-Lemma logged_not_select nm rest : is_logged (FBulk nm :: rest) = true -> beq (upper nm) (bs "SELECT") = false.
+Lemma written_not_select nm : mem_name (upper nm) write_commands = true -> beq (upper nm) (bs "SELECT") = false.
 Proof.
-  unfold is_logged. intros H. destruct (beq (upper nm) (bs "SELECT")) eqn:E; [|reflexivity].
+  intros H. destruct (beq (upper nm) (bs "SELECT")) eqn:E; [|reflexivity].
   apply beq_eq in E. rewrite E in H. vm_compute in H. discriminate.
 Qed.
+Lemma logged_not_select nm rest : is_logged (FBulk nm :: rest) = true -> beq (upper nm) (bs "SELECT") = false.
+Proof. intros H. apply written_not_select. exact (is_logged_write _ H). Qed.
 Lemma upper_select_id nm : beq nm (bs "SELECT") = true -> beq (upper nm) (bs "SELECT") = true.
 Proof. intros H. apply beq_eq in H. subst. reflexivity. Qed.
-(** a logged command is never mistaken for the engine's SELECT record *)
-Lemma last_db_skip p l : is_logged p = true -> aof_last_db (p :: l) = aof_last_db l.
+(** a record that is never mistaken for the engine's SELECT record *)
+Definition rec_plain (p : list frame) : Prop := p <> [] /\ forall l, aof_last_db (p :: l) = aof_last_db l.
+Lemma plain3 f1 f2 f3 r : rec_plain (f1 :: f2 :: f3 :: r).
+Proof. split; [discriminate|]. intros l. cbn [aof_last_db]. destruct f1; try reflexivity. destruct f2; reflexivity. Qed.
+Lemma logged_plain p : is_logged p = true -> rec_plain p.
 Proof.
-  intros H. destruct p as [|f1 [|f2 [|f3 r]]]; try discriminate; cbn [aof_last_db]; try reflexivity.
+  intros H. split; [destruct p; [discriminate H|discriminate]|]. intros l.
+  destruct p as [|f1 [|f2 [|f3 r]]]; try discriminate; cbn [aof_last_db]; try reflexivity.
   - destruct f1; reflexivity.
   - destruct f1; try reflexivity. destruct f2; try reflexivity.
     destruct (beq b (bs "SELECT")) eqn:E; [|reflexivity].
     apply upper_select_id in E. rewrite (logged_not_select _ _ H) in E. discriminate.
   - destruct f1; try reflexivity. destruct f2; reflexivity.
 Qed.
-Lemma last_db_push log dbi p : is_logged p = true -> db_ok dbi -> aof_last_db (aof_push log dbi p) = Some dbi.
+Lemma verb_plain p : Forall rec_plain (verb_recs p).
 Proof.
-  intros H Hd. unfold aof_push. rewrite (last_db_skip _ _ H).
+  unfold verb_recs. destruct p as [|[] rest]; try constructor.
+  destruct (logs_before (upper b) (FBulk b :: rest)) eqn:E; constructor; [|constructor].
+  apply logged_plain. exact E.
+Qed.
+Lemma deterministic_plain name parts reply p : deterministic_form name parts reply = Some p -> rec_plain p.
+Proof.
+  unfold deterministic_form. destruct (beq name (bs "SPOP")).
+  - destruct (nth_error parts 1); [|discriminate]. destruct reply; try discriminate.
+    + intros H; inversion H; apply plain3.
+    + destruct l; [discriminate|]. intros H; inversion H; apply plain3.
+  - destruct parts as [|a [|b0 [|c0 rest]]]; try discriminate. destruct reply; try discriminate.
+    intros H; inversion H; apply plain3.
+Qed.
+Lemma out_plain now d' name parts reply : Forall rec_plain (out_recs now d' name parts reply).
+Proof.
+  unfold out_recs. apply Forall_app. split.
+  - destruct (by_outcome name parts); [|constructor].
+    destruct (deterministic_form name parts reply) eqn:E; constructor; [|constructor].
+    eapply deterministic_plain; exact E.
+  - destruct (ttl_recorded name && negb (is_err reply)); [|constructor].
+    destruct (nth_error parts 1) as [[]|]; try constructor.
+    destruct (eng_ttl now d' b); constructor; [apply plain3|constructor].
+Qed.
+Lemma dout_plain now dbs dbi parts o : Forall rec_plain (dout_recs now dbs dbi parts o).
+Proof.
+  unfold dout_recs. destruct parts as [|[] rest]; try constructor.
+  repeat match goal with |- Forall _ (if ?c then _ else _) => destruct c; [constructor|] end.
+  destruct (exec_db _ _ _ _ _) as [[r d']|]; [apply out_plain|constructor].
+Qed.
+Lemma xrecs_plain now dbs x : Forall rec_plain (xrecs now dbs x).
+Proof.
+  unfold xrecs, xout_recs. apply Forall_app. split; [apply verb_plain|].
+  destruct (x_parts x) as [|[] rest]; try constructor; apply dout_plain.
+Qed.
+
+Lemma last_db_push log dbi p : rec_plain p -> db_ok dbi -> aof_last_db (aof_push log dbi p) = Some dbi.
+Proof.
+  intros [_ H] Hd. unfold aof_push. rewrite H.
   destruct (aof_last_db log) as [n|] eqn:E; cbn [same_db].
   - destruct (n =? dbi) eqn:En; [apply Z.eqb_eq in En; subst; exact E|].
     cbn [aof_last_db aof_select]. change (beq (bs "SELECT") (bs "SELECT")) with true. cbv iota. apply small_db_text; exact Hd.
   - cbn [aof_last_db aof_select]. change (beq (bs "SELECT") (bs "SELECT")) with true. cbv iota. apply small_db_text; exact Hd.
 Qed.
-Lemma push_all_recs : forall cmds log,
-  forallb dcmd_ok cmds = true ->
-  rev (push_all log cmds) = rev log ++ recs (aof_last_db log) cmds.
+Lemma push_recs_rev : forall rs log dbi, Forall rec_plain rs -> db_ok dbi ->
+  rev (push_recs log dbi rs) = rev log ++ sel_recs (aof_last_db log) dbi rs ++ rs /\
+  aof_last_db (push_recs log dbi rs) = next_last (aof_last_db log) dbi rs.
 Proof.
-  induction cmds as [|[dbi p] cmds IH]; intros log Hok; cbn [push_all fold_left recs fst snd]; [rewrite app_nil_r; reflexivity|].
-  cbn [forallb] in Hok. apply andb_prop in Hok as [H1 H2]. unfold dcmd_ok in H1. cbn [fst snd] in H1.
-  assert (Hd : db_ok dbi) by (unfold db_ok; lia).
-  fold (push_all (if is_logged p then aof_push log dbi p else log) cmds).
-  destruct (is_logged p) eqn:Lp; [|apply IH; exact H2].
-  rewrite IH by exact H2. rewrite (last_db_push log dbi p Lp Hd). unfold aof_push.
-  destruct (same_db (aof_last_db log) dbi); cbn [rev]; rewrite <- ?app_assoc; reflexivity.
+  intros rs log dbi Hp Hd. destruct rs as [|r rs]; [cbn; rewrite app_nil_r; auto|].
+  inversion Hp as [|? ? Hr Hrs]; subst. cbn [sel_recs next_last].
+  unfold push_recs. cbn [fold_left]. fold (push_recs (aof_push log dbi r) dbi rs).
+  assert (G : forall rs log1, Forall rec_plain rs -> aof_last_db log1 = Some dbi ->
+            rev (push_recs log1 dbi rs) = rev log1 ++ rs /\ aof_last_db (push_recs log1 dbi rs) = Some dbi).
+  { clear. induction rs as [|r rs IH]; intros log1 Hp Hl; [cbn; rewrite app_nil_r; auto|].
+    inversion Hp as [|? ? Hr Hrs]; subst. unfold push_recs. cbn [fold_left]. fold (push_recs (aof_push log1 dbi r) dbi rs).
+    assert (E : aof_push log1 dbi r = r :: log1) by (unfold aof_push; rewrite Hl; cbn [same_db]; rewrite Z.eqb_refl; reflexivity).
+    rewrite E. destruct (IH (r :: log1) Hrs) as [A B]; [rewrite (proj2 Hr); exact Hl|].
+    rewrite A, B. cbn [rev]. rewrite <- app_assoc. auto. }
+  destruct (G rs (aof_push log dbi r) Hrs (last_db_push log dbi r Hr Hd)) as [A B].
+  rewrite A, B. split; [|reflexivity]. unfold aof_push.
+  destruct (same_db (aof_last_db log) dbi); cbn [rev app]; rewrite <- ?app_assoc; reflexivity.
 Qed.
-Lemma push_all_records : forall cmds log, forallb is_record log = true -> forallb is_record (push_all log cmds) = true.
+Lemma push_recs_records : forall rs log dbi, Forall rec_plain rs -> forallb is_record log = true ->
+  forallb is_record (push_recs log dbi rs) = true.
 Proof.
-  induction cmds as [|[dbi p] cmds IH]; intros log H; [exact H|]. cbn [push_all fold_left fst snd].
-  fold (push_all (if is_logged p then aof_push log dbi p else log) cmds). apply IH.
-  destruct (is_logged p) eqn:Lp; [|exact H]. unfold aof_push, is_logged in *.
-  destruct p; [discriminate|]. destruct (same_db _ _); cbn [forallb is_record aof_select]; rewrite H; reflexivity.
+  induction rs as [|r rs IH]; intros log dbi Hp H; [exact H|]. inversion Hp as [|? ? Hr Hrs]; subst.
+  unfold push_recs. cbn [fold_left]. apply IH; [exact Hrs|].
+  unfold aof_push. destruct Hr as [Hne _]. destruct r; [contradiction|].
+  destruct (same_db _ _); cbn [forallb is_record aof_select]; rewrite H; reflexivity.
 Qed.
 Lemma filter_all {A} (p : A -> bool) l : forallb p l = true -> filter p l = l.
 Proof. induction l as [|x l IH]; [reflexivity|]. cbn [forallb filter]. intros H. apply andb_prop in H as [H1 H2]. rewrite H1, IH; auto. Qed.
 
+Lemma run_trace_cons t x tr st : run_trace ((t, x) :: tr) st = run_trace tr (xstep t st x).
+Proof. reflexivity. Qed.
+(** the log after a trace: the records of its commands, oldest first *)
+Lemma run_trace_recs : forall tr dbs log,
+  forallb (fun x => item_ok (snd x)) tr = true ->
+  rev (snd (run_trace tr (dbs, log))) = rev log ++ map fst (trecs tr dbs (aof_last_db log)) /\
+  (forallb is_record log = true -> forallb is_record (snd (run_trace tr (dbs, log))) = true).
+Proof.
+  induction tr as [|[t x] tr IH]; intros dbs log Hok; [cbn; rewrite app_nil_r; auto|].
+  cbn [forallb snd] in Hok. apply andb_prop in Hok as [H1 H2].
+  assert (Hd : db_ok (x_db x)) by (unfold item_ok in H1; unfold db_ok; lia).
+  rewrite run_trace_cons.
+  change (xstep t (dbs, log) x) with (xstep_dbs t dbs x, push_recs log (x_db x) (xrecs t dbs x)).
+  destruct (push_recs_rev (xrecs t dbs x) log (x_db x) (xrecs_plain t dbs x) Hd) as [A B].
+  destruct (IH (xstep_dbs t dbs x) (push_recs log (x_db x) (xrecs t dbs x)) H2) as [I1 I2]. split.
+  - rewrite I1, A, B. cbn [trecs]. rewrite !map_app, map_map. cbn [fst]. rewrite map_id, xorecs_fst.
+    rewrite <- !app_assoc. f_equal. f_equal.
+    + rewrite <- (xorecs_fst t dbs x). destruct (xorecs t dbs x); reflexivity.
+    + f_equal. rewrite <- (xorecs_fst t dbs x). destruct (xorecs t dbs x); reflexivity.
+  - intros Hr. apply I2. apply push_recs_records; [apply xrecs_plain|exact Hr].
+Qed.
+
 (** the file of a history is the records of its trace *)
+Definition dbs0 : list db := s_dbs (init_server None).
 Lemma history_file h :
   forallb (fun te => ev_ok (snd te)) h = true ->
-  aof_log (run_tevs h) = recs None (map snd (trace_of h)).
+  aof_log (run_tevs h) = map fst (trecs (trace_of h) dbs0 None).
 Proof.
   intros Hok. unfold run_tevs, trace_of, aof_log.
-  destruct (history_is_trace h (init_server None) linv_init Hok) as (_ & H2 & H3).
-  rewrite H2. change (s_aof (init_server None)) with (@nil (list frame)).
-  rewrite filter_all by (apply push_all_records; reflexivity).
-  rewrite push_all_recs; [reflexivity|].
-  rewrite forallb_forall in *. intros x Hx. apply in_map_iff in Hx as (y & <- & Hy). exact (H3 y Hy).
+  destruct (history_is_trace h (init_server None) linv_init Hok) as (H2 & H3).
+  change (s_aof (fold_left tev_step h (init_server None))) with (snd (st_of (fold_left tev_step h (init_server None)))).
+  rewrite H2. change (st_of (init_server None)) with (dbs0, @nil (list frame)).
+  destruct (run_trace_recs (trace_from (init_server None) h) dbs0 [] H3) as [A B].
+  rewrite filter_all by (apply B; reflexivity). exact A.
+Qed.
+Lemma history_dbs h :
+  forallb (fun te => ev_ok (snd te)) h = true ->
+  s_dbs (run_tevs h) = fst (run_trace (trace_of h) (dbs0, [])).
+Proof.
+  intros Hok. unfold run_tevs, trace_of.
+  destruct (history_is_trace h (init_server None) linv_init Hok) as (H2 & _).
+  change (s_dbs (fold_left tev_step h (init_server None))) with (fst (st_of (fold_left tev_step h (init_server None)))).
+  rewrite H2. reflexivity.
+Qed.
+(** the databases along a trace do not depend on the log *)
+Lemma run_trace_dbs : forall tr dbs log log', fst (run_trace tr (dbs, log)) = fst (run_trace tr (dbs, log')).
+Proof.
+  induction tr as [|[t x] tr IH]; intros dbs log log'; [reflexivity|].
+  rewrite !run_trace_cons. unfold xstep. cbn [fst snd]. apply IH.
+Qed.
+Fixpoint trace_dbs (tr : list titem) (dbs : list db) : list db :=
+  match tr with [] => dbs | (t, x) :: r => trace_dbs r (xstep_dbs t dbs x) end.
+Lemma run_trace_fst : forall tr dbs log, fst (run_trace tr (dbs, log)) = trace_dbs tr dbs.
+Proof.
+  induction tr as [|[t x] tr IH]; intros dbs log; [reflexivity|].
+  rewrite run_trace_cons. cbn [trace_dbs]. unfold xstep. cbn [fst snd]. apply IH.
 Qed.
 
 (** ---- the redo of a list of records, as a function of (selected database, databases) ---- *)
-Definition redo_step (now : Z) (st : Z * list db) (p : list frame) : Z * list db :=
-  (sel_db (fst st) p, step_dbs now (snd st) (fst st) p None).
-Definition redo (now : Z) (log : list (list frame)) (st : Z * list db) : Z * list db :=
+Definition redo_step (now : Z) (st : Z * list db) (po : orec) : Z * list db :=
+  (sel_db (fst st) (fst po), step_dbs now (snd st) (fst st) (fst po) (snd po)).
+Definition redo (now : Z) (log : list orec) (st : Z * list db) : Z * list db :=
   fold_left (redo_step now) log st.
-Definition replay_from (now : Z) (R : server) (log : list (list frame)) : server :=
-  fold_left (replay_step now) (no_oracle log) R.
+Lemma redo_app now a b st : redo now (a ++ b) st = redo now b (redo now a st).
+Proof. unfold redo. apply fold_left_app. Qed.
+Definition replay_from (now : Z) (R : server) (log : list orec) : server :=
+  fold_left (replay_step now) log R.
 Lemma replay_from_redo now : forall log R cn,
   s_password R = None -> zlookup replay_conn (s_conns R) = Some cn ->
   let R' := replay_from now R log in
   (conn_db R' replay_conn, s_dbs R') = redo now log (c_db cn, s_dbs R).
 Proof.
-  induction log as [|p log IH]; intros R cn Hp Hc; cbv zeta.
-  - unfold replay_from, conn_db. cbn [no_oracle map fold_left redo]. rewrite Hc. reflexivity.
-  - pose proof (nc_dbs now R replay_conn (c_db cn) p None) as Hd.
-    destruct (nc_conn now R replay_conn (c_db cn) p None cn Hp Hc) as (Hp' & (cn' & Hc' & Hdb' & _) & _).
-    set (R1 := snd (normal_command now R replay_conn (c_db cn) p None)) in *.
-    assert (E : replay_from now R (p :: log) = replay_from now R1 log).
-    { unfold replay_from, no_oracle. cbn [map fold_left]. unfold replay_step at 2. cbn [fst snd].
-      unfold conn_db. rewrite Hc. reflexivity. }
-    rewrite E. etransitivity; [apply (IH R1 cn' Hp' Hc')|].
+  induction log as [|[p o] log IH]; intros R cn Hp Hc; cbv zeta.
+  - unfold replay_from, conn_db. cbn [fold_left redo]. rewrite Hc. reflexivity.
+  - pose proof (nc_dbs now R replay_conn (c_db cn) p o) as Hd.
+    destruct (nc_conn now R replay_conn (c_db cn) p o cn Hp Hc) as (Hp' & (cn' & Hc' & Hdb' & _) & _).
+    set (R1 := snd (normal_command now R replay_conn (c_db cn) p o)) in *.
+    assert (E : replay_step now R (p, o) = R1).
+    { unfold replay_step. cbn [fst snd]. unfold conn_db. rewrite Hc. reflexivity. }
+    unfold replay_from. cbn [fold_left]. rewrite E.
+    change (fold_left (replay_step now) log R1) with (replay_from now R1 log).
+    etransitivity; [apply (IH R1 cn' Hp' Hc')|].
     unfold redo. cbn [fold_left]. unfold redo_step at 2. cbn [fst snd]. rewrite Hdb', Hd. reflexivity.
 Qed.
 Lemma replay_redo now log :
-  s_dbs (replay now log) = snd (redo now log (0, s_dbs (init_server None))).
+  s_dbs (replay_o now log) = snd (redo now log (0, dbs0)).
 Proof.
   pose proof (replay_from_redo now log replay_init (new_conn true) eq_refl eq_refl) as H. cbv zeta in H.
-  unfold replay, replay_o. change (fold_left (replay_step now) (no_oracle log) replay_init) with (replay_from now replay_init log).
-  change (c_db (new_conn true)) with 0 in H. change (s_dbs replay_init) with (s_dbs (init_server None)) in H.
+  unfold replay_o. change (fold_left (replay_step now) log replay_init) with (replay_from now replay_init log).
+  change (c_db (new_conn true)) with 0 in H. change (s_dbs replay_init) with dbs0 in H.
   rewrite <- H. reflexivity.
 Qed.
 
-(** ---- the generic redo theorem over traces ---- *)
-Fixpoint live_fresh (tr : list tcmd) (dbs : list db) : bool :=
-  match tr with
-  | [] => true
-  | x :: r => fresh_all (fst x) dbs && live_fresh r (step_dbs (fst x) dbs (fst (snd x)) (snd (snd x)) None)
-  end.
-Fixpoint redo_fresh (now : Z) (log : list (list frame)) (st : Z * list db) : bool :=
-  match log with
-  | [] => true
-  | p :: r => fresh_all now (snd st) && redo_fresh now r (redo_step now st p)
-  end.
-Lemma sel_db_logged cur p : is_logged p = true -> sel_db cur p = cur.
+Lemma sel_db_written cur p : is_write p = true -> sel_db cur p = cur.
 Proof.
-  intros H. destruct p as [|[] rest]; try discriminate. apply sel_db_other. eapply logged_not_select; exact H.
+  intros H. destruct p as [|[] rest]; try discriminate. apply sel_db_other. apply written_not_select. exact H.
 Qed.
-Lemma redo_select now cur dbs dbi : db_ok dbi -> fresh_all now dbs = true ->
-  redo_step now (cur, dbs) (aof_select dbi) = (dbi, dbs).
+Lemma sel_db_select cur dbi : db_ok dbi -> sel_db cur (aof_select dbi) = dbi.
 Proof.
-  intros Hd Hf. unfold redo_step. cbn [fst snd]. rewrite step_dbs_unlogged by (auto; vm_compute; reflexivity).
-  unfold aof_select, sel_db. change (upper (bs "SELECT")) with (bs "SELECT").
+  intros Hd. unfold aof_select, sel_db. change (upper (bs "SELECT")) with (bs "SELECT").
   change (beq (bs "SELECT") (bs "SELECT")) with true. cbv iota.
   rewrite (small_db_text dbi Hd). unfold db_ok in Hd. replace (16 <=? dbi) with false by lia. reflexivity.
 Qed.
+Lemma select_unwritten dbi : is_write (aof_select dbi) = false.
+Proof. vm_compute. reflexivity. Qed.
 
+(** ---- the generic redo theorem over traces ---- *)
+(** [Rl] relates the databases of the live server with those of the redo; [Q] is what is asked
+    of every state of the live run, [P] of every executed command (with the state it ran in) *)
 Section TraceRel.
 Variable Rl : list db -> list db -> Prop.
 Variable now' : Z.
-Variable P : tcmd -> bool.
-Hypothesis step_rel : forall t dbi p d1 d2,
-  P (t, (dbi, p)) = true -> is_logged p = true -> Rl d1 d2 ->
-  fresh_all t d1 = true -> fresh_all now' d2 = true ->
-  Rl (step_dbs t d1 dbi p None) (step_dbs now' d2 dbi p None).
+Variable Q : list db -> Prop.
+Variable P : titem -> list db -> Prop.
+(** the SELECT record changes nothing *)
+Hypothesis sel_rel : forall d1 d2 cur dbi, Q d1 -> Rl d1 d2 -> db_ok dbi ->
+  Rl d1 (step_dbs now' d2 cur (aof_select dbi) None).
+(** the records of one command, redone in its database, do what the command did *)
+Hypothesis item_rel : forall t x d1 d2, Q d1 -> P (t, x) d1 -> item_ok x = true -> Rl d1 d2 ->
+  redo now' (xorecs t d1 x) (x_db x, d2) = (x_db x, snd (redo now' (xorecs t d1 x) (x_db x, d2))) /\
+  Rl (xstep_dbs t d1 x) (snd (redo now' (xorecs t d1 x) (x_db x, d2))).
+(** a command that leaves no record changed nothing *)
+Hypothesis quiet_rel : forall t x d1 d2, Q d1 -> P (t, x) d1 -> Rl d1 d2 -> xorecs t d1 x = [] ->
+  Rl (xstep_dbs t d1 x) d2.
+
+Fixpoint along (tr : list titem) (d1 : list db) : Prop :=
+  match tr with
+  | [] => Q d1
+  | (t, x) :: r => Q d1 /\ P (t, x) d1 /\ along r (xstep_dbs t d1 x)
+  end.
 
 Lemma trace_redo_rel : forall tr d1 d2 last cur,
   Rl d1 d2 -> (forall n, last = Some n -> cur = n) ->
-  forallb P tr = true -> forallb (fun x => dcmd_ok (snd x)) tr = true ->
-  live_fresh tr d1 = true -> redo_fresh now' (recs last (map snd tr)) (cur, d2) = true ->
-  Rl (run_trace tr d1) (snd (redo now' (recs last (map snd tr)) (cur, d2))).
+  forallb (fun x => item_ok (snd x)) tr = true -> along tr d1 ->
+  Rl (trace_dbs tr d1) (snd (redo now' (trecs tr d1 last) (cur, d2))).
 Proof.
-  induction tr as [|[t [dbi p]] tr IH]; intros d1 d2 last cur HR Hlink HP Hok Hl Hr; [exact HR|].
-  cbn [forallb] in HP, Hok. apply andb_prop in HP as [HP1 HP2]. apply andb_prop in Hok as [Hok1 Hok2].
-  unfold dcmd_ok in Hok1. cbn [fst snd] in Hok1.
-  assert (Hd : db_ok dbi) by (unfold db_ok; lia).
-  cbn [live_fresh fst snd] in Hl. apply andb_prop in Hl as [Hl1 Hl2].
-  cbn [map snd recs] in *. cbn [run_trace fold_left fst snd]. fold (run_trace tr).
-  destruct (is_logged p) eqn:Lp.
-  - destruct (same_db last dbi) eqn:Es.
-    + assert (cur = dbi) by (destruct last as [n|]; cbn [same_db] in Es; [apply Z.eqb_eq in Es; subst; apply Hlink; reflexivity|discriminate]).
-      subst cur. cbn [app redo_fresh snd] in Hr. apply andb_prop in Hr as [Hr1 Hr2].
-      cbn [app]. unfold redo. cbn [fold_left]. fold (redo now').
-      assert (E : redo_step now' (dbi, d2) p = (dbi, step_dbs now' d2 dbi p None))
-        by (unfold redo_step; cbn [fst snd]; rewrite (sel_db_logged dbi p Lp); reflexivity).
-      rewrite E in *.
-      apply IH; auto. intros n Hn. inversion Hn; reflexivity.
-    + cbn [app redo_fresh snd] in Hr. apply andb_prop in Hr as [Hr0 Hr]. rewrite (redo_select now' cur d2 dbi Hd Hr0) in Hr.
-      cbn [redo_fresh snd] in Hr. apply andb_prop in Hr as [Hr1 Hr2].
-      cbn [app]. unfold redo. cbn [fold_left]. fold (redo now'). rewrite (redo_select now' cur d2 dbi Hd Hr0).
-      assert (E : redo_step now' (dbi, d2) p = (dbi, step_dbs now' d2 dbi p None))
-        by (unfold redo_step; cbn [fst snd]; rewrite (sel_db_logged dbi p Lp); reflexivity).
-      rewrite E in *.
-      apply IH; auto. intros n Hn. inversion Hn; reflexivity.
-  - rewrite (step_dbs_unlogged t d1 dbi p None Lp Hl1) in *. apply IH; auto.
+  induction tr as [|[t x] tr IH]; intros d1 d2 last cur HR Hlink Hok Hal; [exact HR|].
+  cbn [forallb snd] in Hok. apply andb_prop in Hok as [Hok1 Hok2].
+  assert (Hd : db_ok (x_db x)) by (unfold item_ok in Hok1; unfold db_ok; lia).
+  cbn [along] in Hal. destruct Hal as (HQ & HP & Hal).
+  cbn [trace_dbs trecs]. destruct (xorecs t d1 x) as [|r0 rs] eqn:Ers.
+  - (* no record *)
+    cbn [sel_recs map app next_last]. apply IH; auto; apply (quiet_rel t x d1 d2 HQ HP HR Ers).
+  - rewrite <- Ers. rewrite !redo_app.
+    assert (Sel : exists d2', redo now' (map (fun p => (p, None)) (sel_recs last (x_db x) (xorecs t d1 x))) (cur, d2) = (x_db x, d2') /\ Rl d1 d2').
+    { rewrite Ers. cbn [sel_recs]. destruct (same_db last (x_db x)) eqn:Es.
+      - exists d2. split; [|exact HR]. cbn [map redo fold_left].
+        destruct last as [n|]; cbn [same_db] in Es; [|discriminate]. apply Z.eqb_eq in Es. rewrite (Hlink n eq_refl), Es. reflexivity.
+      - exists (step_dbs now' d2 cur (aof_select (x_db x)) None). split; [|apply sel_rel; auto].
+        cbn [map redo fold_left]. unfold redo_step. cbn [fst snd]. rewrite sel_db_select by exact Hd. reflexivity. }
+    destruct Sel as (d2' & S1 & S2). rewrite S1.
+    destruct (item_rel t x d1 d2' HQ HP Hok1 S2) as [I1 I2]. rewrite I1.
+    apply IH; auto. rewrite Ers. cbn [next_last]. intros n Hn. inversion Hn; reflexivity.
 Qed.
 End TraceRel.
 
-(** instance 1: everything at one clock reading - the databases are EQUAL *)
-Lemma trace_redo_eq now : forall tr dbs,
-  forallb (fun x => fst x =? now) tr = true -> forallb (fun x => dcmd_ok (snd x)) tr = true ->
-  live_fresh tr dbs = true -> redo_fresh now (recs None (map snd tr)) (0, dbs) = true ->
-  run_trace tr dbs = snd (redo now (recs None (map snd tr)) (0, dbs)).
+(** ================= 6. what the records of an outcome do ================= *)
+(** two databases that answer every lookup alike (the order of the keys - a HashMap order in the
+    implementation - and the sweeper's index are left out) *)
+Definition ext (d1 d2 : db) : Prop := forall k, get_entry d1 k = get_entry d2 k.
+Lemma ext_refl d : ext d d. Proof. intros k; reflexivity. Qed.
+Lemma ext_sym a b : ext a b -> ext b a. Proof. intros H k; symmetry; apply H. Qed.
+Lemma ext_trans a b c : ext a b -> ext b c -> ext a c. Proof. intros H1 H2 k; rewrite H1; apply H2. Qed.
+Lemma ext_put_same d k e : get_entry d k = Some e -> ext (put_entry d k e) d.
 Proof.
-  intros tr dbs Ht Hok Hl Hr.
-  apply (trace_redo_rel eq now (fun x => fst x =? now)); auto; [|discriminate].
-  intros t dbi p d1 d2 HP _ -> _ _. cbn [fst] in HP. apply Z.eqb_eq in HP. subst. reflexivity.
+  intros H k'. destruct (beq k' k) eqn:E.
+  - apply beq_eq in E. subst. rewrite get_entry_put_same. symmetry; exact H.
+  - apply get_entry_put_other; exact E.
 Qed.
 
-(** ================= 6. the replay theorem, one clock reading ================= *)
-Definition dbs0 : list db := s_dbs (init_server None).
-(** THE REPLAY THEOREM: all sixteen databases of the redo equal those of the live server *)
+(** ---- SPOP is the SREM of the members it returned ---- *)
+Lemma bremove_notin m s : bmem m s = false -> bremove m s = s.
+Proof.
+  induction s as [|x s IH]; [reflexivity|]. cbn [bmem bremove]. intros H. apply orb_false_iff in H as [H1 H2].
+  rewrite H1, IH by exact H2. reflexivity.
+Qed.
+Lemma bremove_comm a b s : bremove a (bremove b s) = bremove b (bremove a s).
+Proof.
+  induction s as [|x s IH]; [reflexivity|]. cbn [bremove].
+  destruct (beq b x) eqn:Eb; destruct (beq a x) eqn:Ea; cbn [bremove]; rewrite ?Eb, ?Ea, IH; reflexivity.
+Qed.
+Lemma remove_all_cons x xs s : remove_all (x :: xs) s = remove_all xs (bremove x s).
+Proof. reflexivity. Qed.
+Lemma remove_all_bremove xs : forall x s, remove_all xs (bremove x s) = bremove x (remove_all xs s).
+Proof.
+  induction xs as [|y xs IH]; intros x s; [reflexivity|].
+  rewrite !remove_all_cons, bremove_comm. apply IH.
+Qed.
+Lemma remove_all_perm xs ys : Permutation xs ys -> forall s, remove_all xs s = remove_all ys s.
+Proof.
+  induction 1; intros s.
+  - reflexivity.
+  - rewrite !remove_all_cons. apply IHPermutation.
+  - rewrite !remove_all_cons, bremove_comm. reflexivity.
+  - rewrite IHPermutation1. apply IHPermutation2.
+Qed.
+Lemma srem_loop_remove_all : forall ms s n, fst (srem_loop s ms n) = remove_all ms s.
+Proof.
+  induction ms as [|m ms IH]; intros s n; [reflexivity|]. cbn [srem_loop]. rewrite remove_all_cons.
+  destruct (bmem m s) eqn:E; [apply IH|]. rewrite (bremove_notin m s E). apply IH.
+Qed.
+Lemma only_bulks_map l : only_bulks (map FBulk l) = l.
+Proof. induction l as [|x l IH]; [reflexivity|]. cbn [map only_bulks]. rewrite IH. reflexivity. Qed.
+Lemma nth_arg_bulk parts i k : nth_arg parts i = Some k -> nth_error parts i = Some (FBulk k).
+Proof. unfold nth_arg. destruct (nth_error parts i) as [[]|]; try discriminate. cbn. intros H; inversion H; reflexivity. Qed.
+
+Definition upd_of (s' : list bytes) : upd := match s' with [] => Del | b :: l => Put (VSet (b :: l)) end.
+(** the record of an SPOP, given the frame of its key *)
+Definition spop_rec (kf r : frame) : option (list frame) :=
+  match r with
+  | FBulk _ => Some [FBulk (bs "SREM"); kf; r]
+  | FArray (m :: ms) => Some (FBulk (bs "SREM") :: kf :: m :: ms)
+  | _ => None
+  end.
+Lemma spop_form parts r :
+  deterministic_form (bs "SPOP") parts r = match nth_error parts 1 with Some kf => spop_rec kf r | None => None end.
+Proof.
+  unfold deterministic_form, spop_rec. change (beq (bs "SPOP") (bs "SPOP")) with true. cbv iota.
+  destruct (nth_error parts 1); [|reflexivity]. destruct r; try reflexivity; try (destruct l; reflexivity).
+Qed.
+Lemma e_spop_cases single c o cur r u : e_spop single c o cur = (r, u) ->
+  (u = Keep /\ forall kf, spop_rec kf r = None) \/
+  (exists s xs, cur = Some (VSet s) /\ u = upd_of (remove_all xs s) /\
+     ((single = true /\ exists m, xs = [m] /\ r = FBulk m) \/ (single = false /\ r = FArray (map FBulk (bsort xs))))).
+Proof.
+  unfold e_spop. intros H.
+  destruct cur as [[ | |s| | | ]|]; try (left; inversion H; subst; split; [reflexivity|intros kf; destruct single; reflexivity]).
+  destruct s as [|s0 s1]; [left; inversion H; subst; split; [reflexivity|intros kf; destruct single; reflexivity]|].
+  destruct (if single then oracle_bulk o else oracle_bulks o) as [xs|] eqn:Eo;
+    [|left; inversion H; subst; split; [reflexivity|intros kf; reflexivity]].
+  destruct (pick_distinct_ok (s0 :: s1) (Z.min c (len (s0 :: s1))) xs);
+    [|left; inversion H; subst; split; [reflexivity|intros kf; reflexivity]].
+  right. exists (s0 :: s1), xs. inversion H; subst. split; [reflexivity|]. split; [reflexivity|].
+  destruct single.
+  - left. split; [reflexivity|]. unfold oracle_bulk in Eo. destruct o as [[]|]; try discriminate.
+    inversion Eo; subst. exists b. split; reflexivity.
+  - right. split; reflexivity.
+Qed.
+Lemma e_srem_set ms s : snd (e_srem ms (Some (VSet s))) = upd_of (remove_all ms s).
+Proof.
+  unfold e_srem. rewrite <- (srem_loop_remove_all ms s 0). destruct (srem_loop s ms 0) as [s' n]. cbn [fst snd].
+  destruct s'; reflexivity.
+Qed.
+Lemma on_key_snd d k f : snd (on_key d k f) = apply_upd d k (get_entry d k) (snd (f (option_map e_val (get_entry d k)))).
+Proof. unfold on_key. destruct (f (option_map e_val (get_entry d k))). reflexivity. Qed.
+
+(** the spop part of h_spop: either refused at once, or the engine's spop on the key *)
+Lemma h_spop_cases d parts o r d' : h_spop d parts o = (r, d') ->
+  (is_err r = true /\ d' = d) \/
+  (exists k single c, nth_error parts 1 = Some (FBulk k) /\ on_key d k (e_spop single c o) = (r, d')).
+Proof.
+  unfold h_spop. intros H.
+  destruct ((nparts parts <? 2) || (3 <? nparts parts)); [left; inversion H; auto|].
+  destruct (key_of parts) as [k|] eqn:Ek; [|left; inversion H; auto]. apply nth_arg_bulk in Ek.
+  destruct (nparts parts =? 3).
+  - destruct (nth_arg parts 2); [|left; inversion H; auto].
+    destruct (parse_usize b); [|left; inversion H; auto].
+    right. exists k, false, z. auto.
+  - right. exists k, true, 1. auto.
+Qed.
+Lemma len3 {A} (a b c : A) l : len (a :: b :: c :: l) <? 3 = false.
+Proof. rewrite !len_cons. pose proof (len_nonneg l). lia. Qed.
+
+(** SPOP answered with members: the SREM record does to the database what the SPOP did *)
+Lemma spop_as_srem d parts o r d' p :
+  h_spop d parts o = (r, d') -> deterministic_form (bs "SPOP") parts r = Some p ->
+  snd (h_skipping e_srem d p) = d'.
+Proof.
+  intros H Hf. rewrite spop_form in Hf.
+  destruct (h_spop_cases d parts o r d' H) as [[He _]|(k & single & c & Hk & Hon)].
+  - destruct (nth_error parts 1); [|discriminate]. destruct r; discriminate.
+  - rewrite Hk in Hf.
+    pose proof (on_key_snd d k (e_spop single c o)) as Hs. rewrite Hon in Hs. cbn [snd] in Hs.
+    destruct (e_spop single c o (option_map e_val (get_entry d k))) as [r0 u] eqn:Es.
+    assert (r0 = r) by (unfold on_key in Hon; rewrite Es in Hon; inversion Hon; reflexivity). subst r0.
+    cbn [snd] in Hs.
+    destruct (e_spop_cases _ _ _ _ _ _ Es) as [[_ Hn]|(s & xs & Hc & Hu & Hr)]; [rewrite Hn in Hf; discriminate|].
+    destruct Hr as [(-> & m & -> & ->)|(-> & ->)].
+    + cbn [spop_rec] in Hf. inversion Hf; subst p. unfold h_skipping, nparts. rewrite len3.
+      cbn [key_of nth_arg nth_error arg_bytes skipn only_bulks].
+      rewrite on_key_snd, Hc, e_srem_set, Hs, Hu. reflexivity.
+    + cbn [spop_rec] in Hf. destruct (map FBulk (bsort xs)) as [|m ms] eqn:Em; [discriminate|].
+      inversion Hf; subst p. unfold h_skipping. unfold nparts. rewrite len3.
+      cbn [key_of nth_arg nth_error arg_bytes skipn].
+      rewrite <- Em, only_bulks_map, on_key_snd, Hc, e_srem_set, Hs, Hu.
+      rewrite (remove_all_perm _ _ (bsort_perm xs)). reflexivity.
+Qed.
+(** SPOP answered with nothing: nothing changed (the set of a `SPOP key 0` is stored again as it was) *)
+Lemma spop_quiet d parts o r d' :
+  h_spop d parts o = (r, d') -> deterministic_form (bs "SPOP") parts r = None -> ext d' d.
+Proof.
+  intros H Hf. rewrite spop_form in Hf.
+  destruct (h_spop_cases d parts o r d' H) as [[_ ->]|(k & single & c & Hk & Hon)]; [apply ext_refl|].
+  rewrite Hk in Hf.
+  pose proof (on_key_snd d k (e_spop single c o)) as Hs. rewrite Hon in Hs. cbn [snd] in Hs.
+  destruct (e_spop single c o (option_map e_val (get_entry d k))) as [r0 u] eqn:Es.
+  assert (r0 = r) by (unfold on_key in Hon; rewrite Es in Hon; inversion Hon; reflexivity). subst r0.
+  cbn [snd] in Hs. subst d'.
+  destruct (e_spop_cases _ _ _ _ _ _ Es) as [[-> _]|(s & xs & Hc & Hu & Hr)]; [apply ext_refl|].
+  destruct Hr as [(-> & m & -> & ->)|(-> & ->)]; [discriminate Hf|].
+  cbn [spop_rec] in Hf. destruct (bsort xs) as [|m ms] eqn:Eb; [|discriminate Hf].
+  assert (xs = []) by (pose proof (bsort_perm xs) as Hp; rewrite Eb in Hp; apply Permutation_nil in Hp; exact Hp).
+  subst xs u. cbn [remove_all fold_left].
+  destruct (get_entry d k) as [e|] eqn:Ee; [|discriminate Hc]. cbn [option_map] in Hc. inversion Hc as [Hv].
+  destruct s as [|s0 s1]; cbn [upd_of apply_upd].
+  - (* an empty stored set does not reach this branch *)
+    exfalso. unfold e_spop in Es. cbn [option_map] in Es. rewrite Hv in Es. inversion Es.
+  - apply ext_put_same. rewrite Ee. destruct e as [v x]. cbn [e_val e_exp] in *. subst v. reflexivity.
+Qed.
+
+(** ---- XADD with the ID * is the XADD of the ID it generated ---- *)
+Lemma sid_text_not_star i : in_u64 i -> beq (sid_to_bytes i) (bs "*") = false.
+Proof.
+  intros [[H1 H1'] _]. assert (H40 : 0 <= fst i < 10 ^ 40) by (unfold u64_max in H1'; lia).
+  destruct (print_nat_head _ H40) as (c & r & Hc & Hd). unfold sid_to_bytes. rewrite Hc. cbn [app].
+  unfold is_digit in Hd. match goal with |- ?b = false => destruct b eqn:E end; [|reflexivity].
+  apply beq_eq in E. inversion E. lia.
+Qed.
+Lemma oracle_sid_range o oid : oracle_sid o = Some oid -> in_u64 oid.
+Proof. unfold oracle_sid. destruct o as [[]|]; try discriminate. apply id_text_in_u64. Qed.
+
+(** the stream under the key satisfies the stream invariant of Proofs/StreamFacts.v (C15) *)
+Definition stream_fit (d : db) (k : bytes) : Prop :=
+  match raw_stream d k with SStream _ s => SInv s /\ in_u64 (s_last s) | _ => True end.
+Lemma st_auto_as_explicit s f n id s' : SInv s -> in_u64 (s_last s) ->
+  st_add_auto n s f = Some (id, s') ->
+  st_add_with_id s id f = Some s' /\ (fst id =? 0) && (snd id =? 0) = false.
+Proof.
+  intros Hi Hu H. unfold st_add_auto in H. destruct (gen_next n s) as [[[i ms] sq]|] eqn:E; [|discriminate].
+  inversion H; subst. destruct (gen_next_gt n s id ms sq Hi E) as [Hlt ->]. split.
+  - unfold st_add_with_id. replace (sid_leb (ms, sq) (s_last s)) with false by (symmetry; apply sid_leb_nle; exact Hlt).
+    rewrite (has_id_above s (ms, sq) Hi Hlt). reflexivity.
+  - destruct Hu as [[U1 _] [U2 _]]. unfold sid_lt in Hlt. cbn [fst snd] in *. lia.
+Qed.
+
+Lemma xadd_form parts r :
+  deterministic_form (bs "XADD") parts r =
+  match parts, r with a :: b :: _ :: rest, FBulk _ => Some (a :: b :: r :: rest) | _, _ => None end.
+Proof. unfold deterministic_form. change (beq (bs "XADD") (bs "SPOP")) with false. reflexivity. Qed.
+
+Lemma xadd_auto_cases d parts o r d' :
+  by_outcome (bs "XADD") parts = true -> h_xadd d parts o = (r, d') ->
+  (is_err r = true /\ d' = d) \/
+  (exists a k rest f e s n id s',
+     parts = a :: FBulk k :: FBulk (bs "*") :: rest /\ ((nparts parts <? 4) || negb ((nparts parts - 3) mod 2 =? 0)) = false /\
+     parse_fields rest [] = Some f /\
+     (raw_stream d k = SStream e s \/ (raw_stream d k = SMissing /\ e = new_entry empty_stream /\ s = empty_stream)) /\
+     (exists oid, oracle_sid o = Some oid /\ auto_clock s oid = Some n) /\
+     st_add_auto n s f = Some (id, s') /\ r = r_sid id /\ d' = put_stream d k e s').
+Proof.
+  unfold by_outcome. change (beq (bs "XADD") (bs "SPOP")) with false. change (beq (bs "XADD") (bs "XADD")) with true. cbn [orb andb].
+  intros Hb H. unfold h_xadd in H.
+  destruct ((nparts parts <? 4) || negb ((nparts parts - 3) mod 2 =? 0)) eqn:Eg; [left; inversion H; auto|].
+  destruct parts as [|a [|b [|c rest]]]; try discriminate Hb. cbn [nth_error] in Hb, H.
+  destruct c; try discriminate Hb. apply beq_eq in Hb. subst b0.
+  destruct b; try (left; inversion H; auto; fail). cbn [arg_bytes] in H.
+  change (skipn 3 (a :: FBulk b :: FBulk (bs "*") :: rest)) with rest in H.
+  destruct (parse_fields rest []) as [f|] eqn:Ef; [|left; inversion H; auto].
+  change (beq (bs "*") (bs "*")) with true in H. cbv iota in H.
+  assert (G : forall e s, (match oracle_sid o with
+            | None => if (u64_max <? s_aseq s + 1) && (u64_max <? s_ams s + 1) then (r_err, d) else (FError (bs "NOORACLE"), d)
+            | Some oid => match auto_clock s oid with
+                          | None => (FError (bs "BADAUTOID"), d)
+                          | Some now_ms => match st_add_auto now_ms s f with
+                                           | Some (id, s') => (r_sid id, put_stream d b e s')
+                                           | None => (r_err, d)
+                                           end
+                          end
+            end) = (r, d') ->
+            (is_err r = true /\ d' = d) \/
+            (exists n id s', (exists oid, oracle_sid o = Some oid /\ auto_clock s oid = Some n) /\
+                             st_add_auto n s f = Some (id, s') /\ r = r_sid id /\ d' = put_stream d b e s')).
+  { intros e s G. destruct (oracle_sid o) as [oid|] eqn:Eo.
+    - destruct (auto_clock s oid) as [n|] eqn:Ea; [|left; inversion G; auto].
+      destruct (st_add_auto n s f) as [[id s']|] eqn:Es; [|left; inversion G; auto].
+      right. exists n, id, s'. inversion G; subst. eauto 10.
+    - left. destruct ((u64_max <? s_aseq s + 1) && (u64_max <? s_ams s + 1)); inversion G; auto. }
+  destruct (raw_stream d b) as [e s| |] eqn:Er.
+  - destruct (G e s H) as [L|(n & id & s' & Ho & Hs & -> & ->)]; [left; exact L|].
+    right. exists a, b, rest, f, e, s, n, id, s'. repeat split; auto.
+  - destruct (G (new_entry empty_stream) empty_stream H) as [L|(n & id & s' & Ho & Hs & -> & ->)]; [left; exact L|].
+    right. exists a, b, rest, f, (new_entry empty_stream), empty_stream, n, id, s'. repeat split; auto.
+  - left. inversion H; auto.
+Qed.
+
+(** XADD * answered with an ID: the XADD of that ID does to the database what the XADD * did *)
+Lemma xadd_auto_as_explicit d parts o r d' p :
+  by_outcome (bs "XADD") parts = true ->
+  (forall k, nth_error parts 1 = Some (FBulk k) -> stream_fit d k) ->
+  h_xadd d parts o = (r, d') -> deterministic_form (bs "XADD") parts r = Some p ->
+  snd (h_xadd d p None) = d'.
+Proof.
+  intros Hb Hfit H Hf. rewrite xadd_form in Hf.
+  destruct (xadd_auto_cases d parts o r d' Hb H) as [[He _]|(a & k & rest & f & e & s & n & id & s' & -> & Eg & Ef & Er & (oid & Eo & Ea) & Es & -> & ->)].
+  - destruct parts as [|? [|? [|? ?]]]; try discriminate. destruct r; discriminate.
+  - cbn [r_sid] in Hf. inversion Hf; subst p. clear Hf.
+    specialize (Hfit k eq_refl). unfold stream_fit in Hfit.
+    destruct (auto_clock_sound s oid n Ea) as (ms & sq & Eg2).
+    assert (id = oid) by (unfold st_add_auto in Es; rewrite Eg2 in Es; inversion Es; reflexivity). subst id.
+    pose proof (oracle_sid_range o oid Eo) as R.
+    assert (Hinv : SInv s /\ in_u64 (s_last s)).
+    { destruct Er as [Er|(Er & _ & ->)]; rewrite Er in Hfit; [exact Hfit|].
+      split; [apply SInv_empty|]. unfold in_u64, empty_stream, sid_zero. cbn. unfold u64_max. lia. }
+    destruct (st_auto_as_explicit s f n oid s' (proj1 Hinv) (proj2 Hinv) Es) as [Ew Ez].
+    unfold h_xadd, r_sid.
+    replace (nparts (a :: FBulk k :: FBulk (sid_to_bytes oid) :: rest)) with (nparts (a :: FBulk k :: FBulk (bs "*") :: rest))
+      by (unfold nparts; rewrite !len_cons; reflexivity).
+    rewrite Eg. cbn [nth_error arg_bytes].
+    change (skipn 3 (a :: FBulk k :: FBulk (sid_to_bytes oid) :: rest)) with rest. rewrite Ef.
+    rewrite (sid_text_not_star oid R), (id_text_roundtrip oid R), Ez.
+    destruct Er as [Er|(Er & -> & ->)]; rewrite Er, Ew; reflexivity.
+Qed.
+(** XADD * refused: nothing changed *)
+Lemma xadd_quiet d parts o r d' :
+  by_outcome (bs "XADD") parts = true -> h_xadd d parts o = (r, d') ->
+  deterministic_form (bs "XADD") parts r = None -> d' = d.
+Proof.
+  intros Hb H Hf. rewrite xadd_form in Hf.
+  destruct (xadd_auto_cases d parts o r d' Hb H) as [[_ ->]|(a & k & rest & f & e & s & n & id & s' & -> & _ & _ & _ & _ & _ & -> & _)];
+    [reflexivity|discriminate Hf].
+Qed.
+
+(** ================= 7. the replay theorem, one clock reading ================= *)
+(** Every command that is logged as it was sent and leaves no other record - this includes EVAL
+    and the consumer-group commands, whose effect depends on the clock - redone at the clock
+    reading of the live run: the databases are EQUAL.  (Commands logged by outcome and commands
+    followed by a deadline record are the subject of Proofs/AofTimeFacts.v, at any later clock
+    reading.) *)
+Definition item_name (x : item) : bytes := match x_parts x with FBulk nm :: _ => upper nm | _ => [] end.
+Definition plain_item (now : Z) (dbs : list db) (tx : titem) : bool :=
+  (fst tx =? now) && negb (by_outcome (item_name (snd tx)) (x_parts (snd tx)))
+  && match xout_recs now dbs (snd tx) with [] => true | _ => false end.
+Fixpoint plain_run (now : Z) (tr : list titem) (dbs : list db) : bool :=
+  match tr with
+  | [] => fresh_all now dbs
+  | tx :: r => fresh_all now dbs && plain_item now dbs tx && plain_run now r (xstep_dbs (fst tx) dbs (snd tx))
+  end.
+
+Lemma dstep_is_step now dbs dbi parts o : lfresh_all now dbs -> dstep_dbs now dbs dbi parts o = step_dbs now dbs dbi parts o.
+Proof.
+  intros F. unfold step_dbs. destruct parts as [|[] rest]; try reflexivity. rewrite pre_dbs_fresh by exact F. reflexivity.
+Qed.
+Lemma xstep_is_step now dbs x : lfresh_all now dbs -> xstep_dbs now dbs x = step_dbs now dbs (x_db x) (x_parts x) (x_or x).
+Proof. intros F. unfold xstep_dbs. destruct (x_lazy x); [reflexivity|apply dstep_is_step; exact F]. Qed.
+(** EVALSHA is in the table but never written as it was sent: in this model (no script cache
+    behind process_normal_command) it changes nothing *)
+Lemma evalsha_inert now dbs dbi parts o nm rest :
+  parts = FBulk nm :: rest -> upper nm = bs "EVALSHA" -> lfresh_all now dbs -> step_dbs now dbs dbi parts o = dbs.
+Proof.
+  intros -> Hn F. unfold step_dbs. rewrite pre_dbs_fresh by exact F. unfold dstep_dbs. rewrite Hn.
+  change (beq (bs "EVALSHA") (bs "PING")) with false. change (beq (bs "EVALSHA") (bs "ECHO")) with false.
+  change (beq (bs "EVALSHA") (bs "SELECT")) with false. change (beq (bs "EVALSHA") (bs "FLUSHALL")) with false.
+  change (beq (bs "EVALSHA") (bs "RANDOMKEY")) with false. change (beq (bs "EVALSHA") (bs "AUTH")) with false.
+  change (beq (bs "EVALSHA") (bs "QUIT")) with false. change (beq (bs "EVALSHA") (bs "VERIF")) with false. cbv iota.
+  replace (exec_db now (nth (Z.to_nat dbi) dbs empty_db) (bs "EVALSHA") (FBulk nm :: rest) o)
+    with (Some (FError (bs "UNMODELLED"), nth (Z.to_nat dbi) dbs empty_db)) by reflexivity.
+  apply list_set_nth_same.
+Qed.
+(** a command that is neither written as sent nor by outcome changes nothing *)
+Lemma unrecorded_inert now dbs dbi parts o :
+  verb_recs parts = [] -> by_outcome (match parts with FBulk nm :: _ => upper nm | _ => [] end) parts = false ->
+  lfresh_all now dbs -> step_dbs now dbs dbi parts o = dbs.
+Proof.
+  intros Hv Hb F. destruct (is_write parts) eqn:W; [|apply step_dbs_unlogged; assumption].
+  destruct parts as [|[] rest]; try discriminate W. unfold verb_recs in Hv. unfold is_write, mem_name in W.
+  destruct (logs_before (upper b) (FBulk b :: rest)) eqn:L; [discriminate Hv|].
+  unfold logs_before in L. rewrite W, Hb in L. cbn [andb negb] in L. apply negb_false_iff in L. apply beq_eq in L.
+  eapply evalsha_inert; eauto.
+Qed.
+
+Lemma plain_run_along now : forall tr dbs, plain_run now tr dbs = true ->
+  along (fun d => lfresh_all now d) (fun tx d => plain_item now d tx = true) tr dbs.
+Proof.
+  induction tr as [|[t x] tr IH]; intros dbs H; cbn [plain_run along] in *.
+  - apply fresh_lfresh_all; exact H.
+  - apply andb_prop in H as [H H3]. apply andb_prop in H as [H1 H2].
+    split; [apply fresh_lfresh_all; exact H1|]. split; [exact H2|]. apply IH. exact H3.
+Qed.
+
+Theorem trace_redo_eq now : forall tr dbs,
+  forallb (fun x => item_ok (snd x)) tr = true -> plain_run now tr dbs = true ->
+  trace_dbs tr dbs = snd (redo now (trecs tr dbs None) (0, dbs)).
+Proof.
+  intros tr dbs Hok Hp.
+  apply (trace_redo_rel eq now (fun d => lfresh_all now d) (fun tx d => plain_item now d tx = true)); auto;
+    [| | |discriminate|apply plain_run_along; exact Hp].
+  - (* SELECT *)
+    intros d1 d2 cur dbi F <- Hd. symmetry. apply step_dbs_unlogged; [apply select_unwritten|exact F].
+  - (* the records of one command *)
+    intros t x d1 d2 F HP Hi <-. unfold plain_item in HP. cbn [fst snd] in HP.
+    apply andb_prop in HP as [HP H3]. apply andb_prop in HP as [H1 H2]. apply Z.eqb_eq in H1. subst t.
+    apply negb_true_iff in H2.
+    unfold xorecs. destruct (xout_recs now d1 x); [|discriminate H3]. cbn [map]. rewrite app_nil_r.
+    rewrite (xstep_is_step now d1 x F).
+    unfold verb_recs. destruct (x_parts x) as [|[] rest] eqn:Ep; cbn [map redo fold_left snd];
+      try (split; [reflexivity|]; apply (unrecorded_inert now d1 (x_db x) _ (x_or x)); [reflexivity| |exact F];
+           unfold item_name in H2; rewrite Ep in H2; exact H2).
+    destruct (logs_before (upper b) (FBulk b :: rest)) eqn:L; cbn [map redo fold_left snd].
+    + unfold redo_step. cbn [fst snd]. rewrite sel_db_written; [split; reflexivity|].
+      apply is_logged_write. exact L.
+    + split; [reflexivity|]. apply (unrecorded_inert now d1 (x_db x) _ (x_or x)); [|unfold item_name in H2; rewrite Ep in H2; exact H2|exact F].
+      unfold verb_recs. rewrite L. reflexivity.
+  - (* no record *)
+    intros t x d1 d2 F HP <- Hn. unfold plain_item in HP. cbn [fst snd] in HP.
+    apply andb_prop in HP as [HP H3]. apply andb_prop in HP as [H1 H2]. apply Z.eqb_eq in H1. subst t.
+    apply negb_true_iff in H2. rewrite (xstep_is_step now d1 x F).
+    apply unrecorded_inert; [|unfold item_name in H2; exact H2|exact F].
+    unfold xorecs in Hn. apply app_eq_nil in Hn as [Hn _]. destruct (verb_recs (x_parts x)); [reflexivity|discriminate Hn].
+Qed.
+
+(** THE REPLAY THEOREM, one clock reading: all sixteen databases of the redo equal those of the
+    live server *)
 Theorem replay_all_dbs now h :
   forallb (fun te => ev_ok (snd te)) h = true ->
-  forallb (fun te => fst te =? now) h = true ->
-  live_fresh (trace_of h) dbs0 = true ->
-  redo_fresh now (aof_log (run_tevs h)) (0, dbs0) = true ->
-  s_dbs (replay now (aof_log (run_tevs h))) = s_dbs (run_tevs h).
+  plain_run now (trace_of h) dbs0 = true ->
+  aof_log (run_tevs h) = map fst (trecs (trace_of h) dbs0 None) /\
+  s_dbs (replay_o now (trecs (trace_of h) dbs0 None)) = s_dbs (run_tevs h).
 Proof.
-  intros Hok Ht Hl Hr. rewrite (history_file h Hok) in *. rewrite replay_redo.
-  unfold run_tevs, trace_of in *.
-  destruct (history_is_trace h (init_server None) linv_init Hok) as (H1 & _ & H3).
-  rewrite H1. symmetry. apply trace_redo_eq; auto.
-  (* every command of the trace carries its event's clock reading *)
-  clear - Ht. revert Ht. generalize (init_server None). induction h as [|[t e] h IH]; intros s Ht; [reflexivity|].
-  cbn [forallb fst] in Ht. apply andb_prop in Ht as [Ht1 Ht2]. cbn [trace_from fst snd].
-  rewrite forallb_app, (IH _ Ht2), andb_true_r. apply forallb_forall. intros x Hx.
-  apply in_map_iff in Hx as (y & <- & _). exact Ht1.
+  intros Hok Hp. split; [apply history_file; exact Hok|].
+  rewrite replay_redo, (history_dbs h Hok), run_trace_fst. symmetry.
+  apply trace_redo_eq; [|exact Hp].
+  exact (proj2 (history_is_trace h (init_server None) linv_init Hok)).
 Qed.
-Corollary replay_datasets now h :
-  forallb (fun te => ev_ok (snd te)) h = true ->
-  forallb (fun te => fst te =? now) h = true ->
-  live_fresh (trace_of h) dbs0 = true ->
-  redo_fresh now (aof_log (run_tevs h)) (0, dbs0) = true ->
-  map dataset (s_dbs (replay now (aof_log (run_tevs h)))) = map dataset (s_dbs (run_tevs h)).
-Proof. intros. rewrite (replay_all_dbs now h); auto. Qed.
-
-(** ================= 7. witnesses ================= *)
-Definition cmd (args : list bytes) : frame := FArray (map FBulk args).
-Definition hist (cs : list (list bytes)) : list tev := (0, EConn 1) :: map (fun a => (0, EFrame 1 (cmd a))) cs.
-Definition diverges (now : Z) (h : list tev) : Prop :=
-  s_dbs (replay now (aof_log (run_tevs h))) <> s_dbs (run_tevs h).
-Ltac diverge := unfold diverges; let H := fresh "H" in intro H; vm_compute in H; discriminate H.
-
-(** regression for the repaired classes: the four formerly unlogged writers and commands in
-    databases other than 0 are in the domain now, and this history replays exactly *)
-Definition repaired_history : list tev :=
-  hist [[bs "SET"; bs "k"; bs "a"]; [bs "GETSET"; bs "k"; bs "b"]; [bs "HMSET"; bs "h"; bs "f"; bs "1"];
-        [bs "PEXPIRE"; bs "k"; bs "100000"];
-        [bs "SELECT"; bs "1"]; [bs "SET"; bs "k"; bs "in-1"];
-        [bs "XADD"; bs "x"; bs "1-1"; bs "f"; bs "v"]; [bs "XGROUP"; bs "CREATE"; bs "x"; bs "g"; bs "0"];
-        [bs "XREADGROUP"; bs "GROUP"; bs "g"; bs "c"; bs "STREAMS"; bs "x"; bs ">"];
-        [bs "SELECT"; bs "0"]; [bs "APPEND"; bs "k"; bs "c"]; [bs "SELECT"; bs "15"]; [bs "RPUSH"; bs "l"; bs "x"]].
-Lemma repaired_history_ok :
-  forallb (fun te => ev_ok (snd te)) repaired_history = true /\
-  live_fresh (trace_of repaired_history) dbs0 = true /\
-  redo_fresh 0 (aof_log (run_tevs repaired_history)) (0, dbs0) = true /\
-  len (aof_log (run_tevs repaired_history)) = 14 /\
-  s_dbs (replay 0 (aof_log (run_tevs repaired_history))) = s_dbs (run_tevs repaired_history) /\
-  len (d_data (get_db (run_tevs repaired_history) 1)) = 2.
-Proof. repeat (apply conj; [vm_compute; reflexivity|]). vm_compute; reflexivity. Qed.
-
-(** expiry is not logged and TTLs are logged relative: k is set with 300 ms to live at time 0
-    and is gone at time 600 (any command naming it removes it first, bdd75e8; nothing is
-    appended); a redo at time 600 sets it again, alive for another 300 ms *)
-Definition expired_history : list tev :=
-  [(0, EConn 1); (0, EFrame 1 (cmd [bs "SET"; bs "k"; bs "v"; bs "PX"; bs "300"])); (600, EFrame 1 (cmd [bs "GET"; bs "k"]))].
-Lemma expired_diverges :
-  map dataset (s_dbs (replay 600 (aof_log (run_tevs expired_history)))) <> map dataset (s_dbs (run_tevs expired_history)) /\
-  forallb (fun te => ev_ok (snd te)) expired_history = true /\
-  live_fresh (trace_of expired_history) dbs0 = false /\
-  redo_fresh 600 (aof_log (run_tevs expired_history)) (0, dbs0) = true.
-Proof. apply conj; [intro H; vm_compute in H; discriminate H|]. repeat (apply conj; [vm_compute; reflexivity|]). vm_compute; reflexivity. Qed.
-
-(** random outcomes are logged verbatim: two admissible outcomes of the same SPOP / XADD *
-    leave the same file and different datasets, so no function of the file restores both *)
-Lemma spop_verbatim :
-  let s := run_tevs (hist [[bs "SADD"; bs "s"; bs "a"; bs "b"]]) in
-  let s1 := snd (process_frame 0 s 1 (cmd [bs "SPOP"; bs "s"]) (Some (FBulk (bs "a")))) in
-  let s2 := snd (process_frame 0 s 1 (cmd [bs "SPOP"; bs "s"]) (Some (FBulk (bs "b")))) in
-  aof_log s1 = aof_log s2 /\ get_db s1 0 <> get_db s2 0 /\
-  is_error (fst (process_frame 0 s 1 (cmd [bs "SPOP"; bs "s"]) (Some (FBulk (bs "a"))))) = false /\
-  is_error (fst (process_frame 0 s 1 (cmd [bs "SPOP"; bs "s"]) (Some (FBulk (bs "b"))))) = false.
+(** when no event carries an oracle, the redo needs none either *)
+Lemma trecs_no_oracle : forall tr dbs last,
+  forallb (fun tx => match x_or (snd tx) with None => true | Some _ => false end) tr = true ->
+  trecs tr dbs last = no_oracle (map fst (trecs tr dbs last)).
 Proof.
-  cbv zeta. split; [vm_compute; reflexivity|]. split; [intro H; vm_compute in H; discriminate H|].
-  split; vm_compute; reflexivity.
-Qed.
-Lemma xadd_auto_verbatim :
-  let s := run_tevs (hist []) in
-  let q := cmd [bs "XADD"; bs "x"; bs "*"; bs "f"; bs "v"] in
-  let s1 := snd (process_frame 0 s 1 q (Some (FBulk (bs "1700000000000-0")))) in
-  let s2 := snd (process_frame 0 s 1 q (Some (FBulk (bs "1700000000001-0")))) in
-  aof_log s1 = aof_log s2 /\ get_db s1 0 <> get_db s2 0 /\
-  fst (process_frame 0 s 1 q (Some (FBulk (bs "1700000000000-0")))) = FBulk (bs "1700000000000-0") /\
-  fst (process_frame 0 s 1 q (Some (FBulk (bs "1700000000001-0")))) = FBulk (bs "1700000000001-0").
-Proof.
-  cbv zeta. split; [vm_compute; reflexivity|]. split; [intro H; vm_compute in H; discriminate H|].
-  split; vm_compute; reflexivity.
+  induction tr as [|[t x] tr IH]; intros dbs last H; [reflexivity|].
+  cbn [forallb snd] in H. apply andb_prop in H as [H1 H2]. destruct (x_or x) eqn:Eo; [discriminate|].
+  cbn [trecs]. unfold no_oracle. rewrite !map_app, !map_map. cbn [fst].
+  f_equal. f_equal; [|rewrite (IH _ _ H2) at 1; unfold no_oracle; rewrite map_map; reflexivity].
+  unfold xorecs. rewrite Eo, !map_app, !map_map. reflexivity.
 Qed.
 
-(** start-up: the implementation's own replay executes nothing; the file is kept and the
-    engine forgets the database it had last written to *)
-Lemma restart_loses_dataset :
-  let s := run_tevs (hist [[bs "SET"; bs "k"; bs "a"]; [bs "RPUSH"; bs "l"; bs "x"]]) in
-  get_db (restart s) 0 = empty_db /\ get_db s 0 <> empty_db /\ aof_log (restart s) = aof_log s /\
-  aof_last_db (s_aof s) = Some 0 /\ aof_last_db (s_aof (restart s)) = None.
-Proof. cbv zeta. apply conj; [vm_compute; reflexivity|]. apply conj; [intro H; vm_compute in H; discriminate H|]. repeat (apply conj; [vm_compute; reflexivity|]). vm_compute; reflexivity. Qed.
+(** ================= 8. blocking pops (Model/Blocking.v) ================= *)
+(** the pop a waiting client is served by a push (wake_client, delivery branch) is the event
+    [EServed]: one LPOP / RPOP record, at the moment the element leaves the list *)
+Lemma wake_client_served now s b u v d' cst :
+  was_expired now (get_db s (u_db u)) (u_key u) = false ->
+  on_key (get_db s (u_db u)) (u_key u) (e_pop (u_left u)) = (FBulk v, d') ->
+  zlookup (u_conn u) (b_blk b) = Some cst ->
+  fst (wake_client now s b u) = served_pop s (u_db u) (u_left u) (u_key u).
+Proof.
+  intros Hx H Hb. unfold wake_client, served_pop, purge_key. cbn [fst snd]. unfold was_expired in Hx.
+  destruct (get_entry (get_db s (u_db u)) (u_key u)) as [e|]; [rewrite Hx|]; cbn [fst snd]; rewrite H, Hb; reflexivity.
+Qed.
 
-(** non-vacuity of the replay theorem: two connections in different databases, a transaction
-    with a refused command and a read, TTLs, a stream, a pop, a script *)
-Definition sample_history : list tev :=
-  map (fun e => (7, e))
-  [EConn 1; EConn 2;
-   EFrame 1 (cmd [bs "SET"; bs "k"; bs "a"; bs "EX"; bs "100"]);
-   EFrame 2 (cmd [bs "SELECT"; bs "3"]);
-   EFrame 2 (cmd [bs "MULTI"]);
-   EFrame 2 (cmd [bs "RPUSH"; bs "l"; bs "x"; bs "y"]);
-   EFrame 2 (cmd [bs "INCR"; bs "l"]);
-   EFrame 2 (cmd [bs "HSET"; bs "h"; bs "f"; bs "1"]);
-   EFrame 1 (cmd [bs "GET"; bs "k"]);
-   EFrame 2 (cmd [bs "EXEC"]);
-   EFrame 1 (cmd [bs "XADD"; bs "x"; bs "1-1"; bs "f"; bs "v"]);
-   EFrame 2 (cmd [bs "LPOP"; bs "l"]);
-   EFrame 1 (cmd [bs "EXPIRE"; bs "x"; bs "50"]);
-   EClose 2].
-Lemma sample_history_ok :
-  forallb (fun te => ev_ok (snd te)) sample_history = true /\
-  forallb (fun te => fst te =? 7) sample_history = true /\
-  live_fresh (trace_of sample_history) dbs0 = true /\
-  redo_fresh 7 (aof_log (run_tevs sample_history)) (0, dbs0) = true /\
-  len (aof_log (run_tevs sample_history)) = 12 /\ len (d_data (get_db (run_tevs sample_history) 3)) = 2.
-Proof. repeat (apply conj; [vm_compute; reflexivity|]). vm_compute; reflexivity. Qed.
+(** no key holds an empty list (the engine removes a list when its last element goes) *)
+Definition no_empty_list (d : db) : Prop := forall k e, get_entry d k = Some e -> e_val e <> VList [].
+Lemma rev_nil_inv {A} (l : list A) : rev l = [] -> l = [].
+Proof. intros H. apply (f_equal (@rev A)) in H. rewrite rev_involutive in H. exact H. Qed.
+Lemma pop_try (lf : bool) d k : no_empty_list d ->
+  (exists v, fst (on_key d k (e_pop lf)) = FBulk v) \/
+  (snd (on_key d k (e_pop lf)) = d /\ forall v, fst (on_key d k (e_pop lf)) <> FBulk v).
+Proof.
+  intros Hn. unfold on_key. destruct (get_entry d k) as [e|] eqn:E; cbn [option_map e_pop].
+  - destruct (e_val e) as [ |l| | | | ] eqn:Ev; try (right; split; [reflexivity|intros v; discriminate]).
+    destruct l as [|x l]; [exfalso; exact (Hn k e E Ev)|].
+    destruct lf; [left; exists x; reflexivity|].
+    destruct (rev (x :: l)) as [|y r] eqn:Er; [apply rev_nil_inv in Er; discriminate|]. left; exists y; reflexivity.
+  - right. split; [reflexivity|intros v; discriminate].
+Qed.
+Lemma fast_path_cases (lf : bool) : forall keys d r d', no_empty_list d -> fast_path lf d keys = (r, d') ->
+  (exists k v, r = Some (FArray [FBulk k; FBulk v]) /\ on_key d k (e_pop lf) = (FBulk v, d')) \/
+  (d' = d /\ forall k v, r <> Some (FArray [FBulk k; FBulk v])).
+Proof.
+  induction keys as [|k0 keys IH]; intros d r d' Hn H; cbn [fast_path] in H.
+  - right. inversion H; subst. split; [reflexivity|intros; discriminate].
+  - destruct (pop_try lf d k0 Hn) as [[v Hv]|[Hs Hv]].
+    + destruct (on_key d k0 (e_pop lf)) as [r0 d0] eqn:E. cbn [fst] in Hv. subst r0.
+      inversion H; subst. left. exists k0, v. auto.
+    + destruct (on_key d k0 (e_pop lf)) as [r0 d0] eqn:E. cbn [fst snd] in *. subst d0.
+      destruct r0; try (apply IH; assumption).
+      * right. inversion H; subst. split; [reflexivity|intros; discriminate].
+      * exfalso. exact (Hv b eq_refl).
+Qed.
+(** BLPOP / BRPOP that finds an element (fast path of h_bpop): the same event, for the key that
+    served it; otherwise neither the databases nor the log change *)
+Theorem bpop_immediate (lf : bool) now s b c dbi parts oms :
+  no_empty_list (get_db s dbi) ->
+  let s' := snd (fst (h_bpop lf now s b c dbi parts oms)) in
+  (exists k v d', fst (fst (h_bpop lf now s b c dbi parts oms)) = FArray [FBulk k; FBulk v] /\
+                  on_key (get_db s dbi) k (e_pop lf) = (FBulk v, d') /\
+                  s' = served_pop s dbi lf k) \/
+  st_of s' = st_of s.
+Proof.
+  intros Hn. cbv zeta. unfold h_bpop.
+  destruct (len parts <? 3); [right; reflexivity|].
+  destruct (timeout_of (last parts FNull) oms) as [tmo|]; [|right; reflexivity].
+  destruct (all_bulks (removelast (tl parts))) as [keys|]; [|right; reflexivity].
+  destruct (fast_path lf (get_db s dbi) keys) as [r d'] eqn:E.
+  assert (Same : st_of (set_db s dbi (get_db s dbi)) = st_of s).
+  { unfold st_of, set_db, get_db. cbn [s_dbs s_aof]. rewrite list_set_nth_same. reflexivity. }
+  destruct (fast_path_cases lf keys _ _ _ Hn E) as [(k & v & -> & Ho)|[-> Hr]].
+  - left. exists k, v, d'. cbn [fst snd log_served]. unfold served_pop. rewrite Ho. auto.
+  - right. destruct r as [r|].
+    + cbn [fst snd]. unfold log_served.
+      repeat match goal with |- st_of (match ?v with _ => _ end) = _ => destruct v end; try exact Same.
+      exfalso. eapply Hr; reflexivity.
+    + destruct (c =? 0); [exact Same|]. cbn [fst snd]. exact Same.
+Qed.
 
-(** a queued SELECT (1ecc022): the writes after it are logged - and redone - under the new database *)
-Definition queued_select_history : list tev :=
-  hist [[bs "MULTI"]; [bs "SET"; bs "a"; bs "1"]; [bs "SELECT"; bs "1"]; [bs "SET"; bs "b"; bs "2"];
-        [bs "GET"; bs "b"]; [bs "EXEC"]; [bs "APPEND"; bs "b"; bs "3"]].
-Lemma queued_select_history_ok :
-  forallb (fun te => ev_ok (snd te)) queued_select_history = true /\
-  live_fresh (trace_of queued_select_history) dbs0 = true /\
-  redo_fresh 0 (aof_log (run_tevs queued_select_history)) (0, dbs0) = true /\
-  aof_log (run_tevs queued_select_history) =
-    [aof_select 0; [FBulk (bs "SET"); FBulk (bs "a"); FBulk (bs "1")];
-     aof_select 1; [FBulk (bs "SET"); FBulk (bs "b"); FBulk (bs "2")]; [FBulk (bs "APPEND"); FBulk (bs "b"); FBulk (bs "3")]] /\
-  s_dbs (replay 0 (aof_log (run_tevs queued_select_history))) = s_dbs (run_tevs queued_select_history) /\
-  len (d_data (get_db (run_tevs queued_select_history) 1)) = 1.
-Proof. repeat (apply conj; [vm_compute; reflexivity|]). vm_compute; reflexivity. Qed.
+
+(** ---- small restatements for Props/C11.v ---- *)
+Lemma verb_recs_spec p : verb_recs p = if is_logged p then [p] else [].
+Proof. unfold verb_recs, is_logged. destruct p as [|[] rest]; reflexivity. Qed.
+Lemma cmd_recs_split now dbs dbi nm rest o :
+  cmd_recs now dbs dbi (FBulk nm :: rest) o =
+  verb_recs (FBulk nm :: rest) ++ dout_recs now (pre_dbs now dbs dbi (upper nm) (FBulk nm :: rest)) dbi (FBulk nm :: rest) o.
+Proof. reflexivity. Qed.
+Lemma exec_queue_state now c q s dbi acc cn :
+  linv s -> zlookup c (s_conns s) = Some cn -> c_db cn = dbi ->
+  st_of (snd (exec_queue now s c dbi q acc)) = run_items now (queue_items dbi q) (st_of s).
+Proof. intros Hi Hc Hd. exact (es_st _ _ _ _ (exec_queue_spec now c q s dbi acc cn Hi Hc Hd)). Qed.
+Lemma served_pop_state now s dbi lf k :
+  linv s -> st_of (served_pop s dbi lf k) = run_items now (ev_items now s (EServed dbi lf k)) (st_of s).
+Proof. intros Hi. exact (es_st _ _ _ _ (served_pop_spec now s dbi lf k Hi)). Qed.
+(** a wake-up appends at most one record: the pop of the key that served the client *)
+Lemma wake_client_log now s b u :
+  s_aof (fst (wake_client now s b u)) = s_aof s \/
+  exists lf k, s_aof (fst (wake_client now s b u)) = aof_push (s_aof s) (u_db u) (pop_cmd lf k).
+Proof.
+  unfold wake_client.
+  destruct (on_key _ (u_key u) (e_pop (u_left u))) as [r d'].
+  destruct r; try (destruct (zlookup (u_conn u) (b_blk b)) as [st|]; [destruct (recheck _ _ _) as [[[k v]|] d'']|]; cbn [fst];
+    first [left; reflexivity | right; exists (bl_left st), k; unfold log_pop; rewrite s_aof_log_aof_in; reflexivity]).
+  destruct (zlookup (u_conn u) (b_blk b)); cbn [fst]; [|left; reflexivity].
+  right. exists (u_left u), (u_key u). unfold log_pop. rewrite s_aof_log_aof_in. reflexivity.
+Qed.
